@@ -5,20 +5,33 @@
    Python function f ONCE on them - every operator of MultiVector goes through OperatorDict.__call__ /
    _call_binary / UnaryOperatorDict.__call__, which evaluate the generated function of the operand keys on the
    symbolic value lists and then apply OperatorDict.filter (drop the coefficients that test zero) - and the
-   resulting coefficient expressions are lambdified; a call evaluates them at the numeric values.
+   resulting coefficient expressions are lambdified in canonical key order; a call evaluates them at the values.
 
-   1. [directG]: the interpreter [direct] of Model/Tape.v with the two places where it touches the table of
-      generated functions made parameters: [call] (an operator call) and [reg] (a call of a registered function).
-      [directG_direct]: with call = call_op opd and reg = registered .. opd .. it IS [direct] (so nothing about
-      MultiVector's members is modelled a second time).
-   2. [symbolic_run]: directG over the symbol structure with call = (call_op opd, then the filter) and
-      reg = registered over the symbol structure (Registry.__call__ on symbolic MultiVectors runs the compiled
-      tape on the symbolic value lists, no filter).
-   3. the simulation: for every symbol structure S with a representation invariant Q closed under the
-      operations, every map h : S -> R that is a homomorphism on Q (evaluation at a valuation), every filter that
-      only drops stored pairs whose coefficient evaluates to zero, every body: whenever the numeric run returns v,
-      the symbolic run returns a value of the same shape whose evaluation has the coefficients of v.
-   4. the instance RationalPolynomial / evaluation, any valuation, integer literals: [symbolic_agree]. *)
+   1.  [directG]: the interpreter [direct] of Model/Tape.v with the two places where it touches the table of
+       generated functions made parameters: [call] (an operator call) and [reg] (a call of a registered function).
+       [directG_direct]: with call = call_op opd and reg = registered .. opd .. it IS [direct] (so nothing about
+       MultiVector's members is modelled a second time).
+   1b. [symbolic_run]: directG over the symbol structure with call = (call_op opd, then the filter) and
+       reg = registered over the symbol structure (Registry.__call__ on symbolic MultiVectors compiles the tape for
+       the keys of the symbolic arguments and runs it on the symbolic value lists, no filter).
+       [symbolic_run_nofilter]: with the filter that keeps everything it is [direct] over the symbols.
+   2.  the simulation, by induction over the run ([sim_directG]), for every symbol structure S with a representation
+       invariant Q closed under the operations, every map h : S -> R that is a homomorphism on Q (evaluation at a
+       valuation), every filter that only drops stored pairs whose coefficient is mapped to zero, every body:
+       whenever the numeric run returns w, the symbolic run returns a value of the same kind whose image under h
+       has the coefficients of w ([symbolic_sim]).  Ingredients: naturality of every operator of the table on Q
+       (Theory/Natural.v rel_nat1, rel_nat2), their congruence w.r.t. coefficient equality and well-formedness of their
+       results (Theory/Tape.v good1/good2), soundness of the filter ([simm_filter]); for calls of registered
+       functions a second simulation of recorder run + tape evaluation with DIFFERENT key tuples on the two sides
+       ([record_sim], [registered_sim]: the filter thins out the symbolic keys).
+   3.  the instance RationalPolynomial / evaluation at any valuation ([symbolic_agree_literals], [symbolic_agree]).
+   4.  the call with fresh variables for the stored keys of numeric arguments ([symbolic_call_agrees]).
+   5.  a closed instance.   6. a run under no_ext is a run under every ext ([direct_noext_le]).
+
+   NOT covered (no theorem can: poles / F18, or outside the models): inv, div, sqrt, norm, normalized, negative
+   powers, `/ number` (float coefficients are outside Model/Poly.v), a nested call of a function that is itself
+   registered with symbolic=True, the complete-grade padding of do_codegen in graded mode (the grade-wise filter of
+   graded mode IS an instance of the filter hypothesis), simp_func other than the default. *)
 From Coq Require Import String List ZArith Bool Lia Permutation Ring_theory Ring Morphisms.
 From KV Require Import Model.All Model.Composite Model.Poly Model.Tape Gen.Dunder.
 From KV Require Import Theory.WF Theory.Sparse Theory.Product Theory.Ops Theory.OpsWF Theory.Poly Theory.Natural Theory.Tape.
@@ -217,6 +230,65 @@ Proof.
   apply (proj2 (lits_call P k (map (emap g) args))). apply Forall_map. exact H.
 Qed.
 
+(* ================= 1b. the symbolic run ================= *)
+(* do_codegen(f, *symbolic multivectors): MultiVector's members as in [direct]; an operator call is
+   OperatorDict.__call__ on symbolic operands = the generated function on the symbolic value lists followed by
+   the filter [F operands result] (OperatorDict.filter; it is applied when an operand is symbolic, hence the
+   operands as a parameter); a call of a registered function is Registry.__call__ on symbolic multivectors = the
+   compiled tape on the symbolic value lists, no filter *)
+Definition symbolic_run {T} (OT : ops T) (A : alg) (F : list (mv T) -> mv T -> mv T) (opd : optable T)
+    (mvtab tapetab : mtable) (bodies : list (expr T)) : nat -> list (mv T) -> expr T -> res (@val T) :=
+  directG OT A (fun op xs => r <- call_op opd op xs ;; Ok (F xs r)) (registered OT A opd tapetab bodies) mvtab.
+
+Lemma directG_ext {T} (OT : ops T) A call call' reg reg' mvtab :
+  (forall op xs, call op xs = call' op xs) -> (forall fu k xs, reg fu k xs = reg' fu k xs) ->
+  forall fuel env e, directG OT A call reg mvtab fuel env e = directG OT A call' reg' mvtab fuel env e.
+Proof.
+  intros Hcl Hrg.
+  assert (M1 : forall m v, g_meth1 call mvtab m v = g_meth1 call' mvtab m v).
+  { intros m [c|x]; cbn [g_meth1]; [reflexivity|]. destruct (mlookup m mvtab) as [[[op sw] [|[|ar]]]|]; try reflexivity.
+    rewrite Hcl. reflexivity. }
+  assert (M2 : forall m v1 v2, g_meth2 call mvtab m v1 v2 = g_meth2 call' mvtab m v1 v2).
+  { intros m [c|x] v2; cbn [g_meth2]; [reflexivity|]. destruct (mlookup m mvtab) as [[[op sw] [|[|[|ar]]]]|]; try reflexivity.
+    destruct sw; rewrite Hcl; reflexivity. }
+  assert (MI : forall o v1 v2, g_infix OT call mvtab o v1 v2 = g_infix OT call' mvtab o v1 v2).
+  { intros o [a|x] [b|y]; cbn [g_infix]; try reflexivity; apply M2. }
+  assert (MN : forall v, g_norm call mvtab v = g_norm call' mvtab v).
+  { intros v. unfold g_norm. rewrite M1. destruct (g_meth1 call' mvtab "normsq" v); cbn [bind]; [apply M1 | reflexivity]. }
+  assert (ML : forall n x acc, pow_loop n (fun r => g_meth2 call mvtab "gp" r x) acc = pow_loop n (fun r => g_meth2 call' mvtab "gp" r x) acc).
+  { induction n as [|n IHn]; intros x acc; cbn [pow_loop]; [reflexivity|]. rewrite M2.
+    destruct (g_meth2 call' mvtab "gp" acc x); cbn [bind]; [apply IHn | reflexivity]. }
+  induction fuel as [|fu IH]; intros env e; [reflexivity|].
+  destruct e; cbn [directG]; rewrite ?IH; try reflexivity.
+  - destruct (directG OT A call' reg' mvtab fu env e); cbn [bind]; [apply M1 | reflexivity].
+  - destruct (directG OT A call' reg' mvtab fu env e1); cbn [bind]; [|reflexivity].
+    destruct (directG OT A call' reg' mvtab fu env e2); cbn [bind]; [apply M2 | reflexivity].
+  - destruct (directG OT A call' reg' mvtab fu env e) as [[c|x]|]; cbn [bind g_prefix]; try reflexivity. apply M1.
+  - destruct (directG OT A call' reg' mvtab fu env e1); cbn [bind]; [|reflexivity].
+    destruct (directG OT A call' reg' mvtab fu env e2); cbn [bind]; [apply MI | reflexivity].
+  - destruct (directG OT A call' reg' mvtab fu env e) as [[c|x]|]; cbn [bind g_pow]; try reflexivity.
+    destruct (n =? 0); [reflexivity|]. destruct (n <? 0); cbn [bind]; [|apply ML].
+    rewrite M1. destruct (g_meth1 call' mvtab "inv" (VMv x)); cbn [bind]; [apply ML | reflexivity].
+  - destruct (directG OT A call' reg' mvtab fu env e) as [[c|x]|]; cbn [bind g_dual]; try reflexivity.
+    destruct (dual_member A false k); cbn [bind]; [apply M1 | reflexivity].
+  - destruct (directG OT A call' reg' mvtab fu env e) as [[c|x]|]; cbn [bind g_dual]; try reflexivity.
+    destruct (dual_member A true k); cbn [bind]; [apply M1 | reflexivity].
+  - destruct (directG OT A call' reg' mvtab fu env e); cbn [bind]; [apply MN | reflexivity].
+  - destruct (directG OT A call' reg' mvtab fu env e) as [[c|x]|]; cbn [bind g_normalized]; try reflexivity.
+    rewrite MN. destruct (g_norm call' mvtab (VMv x)); cbn [bind]; [apply MI | reflexivity].
+  - rewrite (mapM_ext _ _ args (IH env)).
+    destruct (mapM (directG OT A call' reg' mvtab fu env) args); cbn [bind]; [|reflexivity]. rewrite Hrg. reflexivity.
+Qed.
+
+(* sanity: with the filter that keeps everything the symbolic run is [direct] over the symbol structure *)
+Theorem symbolic_run_nofilter {T} (OT : ops T) A opd mvtab tapetab bodies fuel env e :
+  symbolic_run OT A (fun _ r => r) opd mvtab tapetab bodies fuel env e
+  = direct OT A opd mvtab tapetab bodies fuel env e.
+Proof.
+  rewrite directG_direct. unfold symbolic_run. apply directG_ext; [|reflexivity].
+  intros op xs. destruct (call_op opd op xs); reflexivity.
+Qed.
+
 (* a call of a polynomial operator of the table returns the model operator, for every coefficient structure *)
 Lemma unit_hom_any {T} (OT : ops T) : ops_hom OT Uops (fun _ : T => tt).
 Proof. constructor; reflexivity. Qed.
@@ -249,6 +321,7 @@ Lemma std_call1_ext {T} (OT : ops T) A ext op x : String.eqb op "polarity" = fal
 Proof. intros Hp Hs. unfold call_op, std_opd. cbn [map]. rewrite Hp, Hs. reflexivity. Qed.
 
 (* ================= 2. the simulation ================= *)
+Ltac spl := repeat (match goal with |- _ /\ _ => split end).
 Section Sim.
   (* the symbol structure: coefficients S, representation invariant Q closed under the operations *)
   Variable S : Type.
@@ -367,6 +440,7 @@ Section Sim.
       + destruct (Z.eqb (sgn A (pss_key A) (pss_key A)) 0); discriminate.
   Qed.
 
+  Section Ext.
   (* the operators outside the table: any pair of tables that simulate each other *)
   Variables (extS : optable S) (extN : optable R).
   Definition ext_sim : Prop := forall op xs ys m, Forall2 simm xs ys -> call_op extN op ys = Ok m ->
@@ -410,6 +484,7 @@ Section Sim.
     rewrite call_op_other in H by exact I. rewrite call_op_other by exact I.
     apply (Hext op (x1 :: x2 :: x3 :: xs) (y1 :: y2 :: y3 :: ys) m); [constructor; [exact H1 | constructor; [exact H2 | constructor; [exact H3 | exact HF]]] | exact H].
   Qed.
+  End Ext.
 
   (* ---------- OperatorDict.filter: only stored pairs whose coefficient evaluates to zero are dropped ---------- *)
   Lemma simm_filter (p : Z * S -> bool) x y :
@@ -520,6 +595,7 @@ Section Sim.
     - exact simc_zero.
   Qed.
 
+  Section Gen.
   (* ---------- the members that only call operators: any pair of call functions that simulate each other ---------- *)
   Variable mvtab : mtable.
   Variable callS : string -> list (mv S) -> res (mv S).
@@ -665,63 +741,1027 @@ Section Sim.
         constructor; [apply simv_as_mv; exact H0 | exact IHF]. }
       destruct (Hreg fu k _ _ m Hmv Hm) as [m' [Em Sm]]. rewrite Em. cbn [bind]. eexists. split; [reflexivity | exact Sm].
   Qed.
+  End Gen.
+  (* ---------- calls of registered functions inside the symbolic run ----------
+     Registry.__call__ on symbolic multivectors compiles g_k for the KEYS of the symbolic arguments (which the
+     filter may have thinned out: not the keys of the numeric arguments) and runs the tape on the symbolic value
+     lists.  Simulation of the recorder run + tape evaluation over the symbols by the one over the numbers, for
+     the table of the polynomial operators (every generated function is total there). *)
+  Section Rec.
+  Variable tapetab : mtable.
+  Variable bodies : list (expr S).
+  Hypothesis Hbodies : Forall (lits Q) bodies.
+  Local Notation opdS := (std_opd OS A no_ext).
+  Local Notation opdN := (std_opd O A no_ext).
+  Local Notation recS := (record OS A opdS tapetab bodies).
+  Local Notation recN := (record O A opdN tapetab (map (emap h) bodies)).
+  Local Notation runS := (run_tape OS opdS).
+  Local Notation runN := (run_tape O opdN).
+  Local Notation wfk' := (wfk A).
+
+  Lemma noext_sim : ext_sim no_ext no_ext.
+  Proof. intros op xs ys m _ H. unfold call_op, no_ext in H. cbn in H. discriminate. Qed.
+  Lemma wfk0 : wfk' [0].
+  Proof. split; [constructor; [intros [] | constructor] | intros k [<-|[]]; exact (zero_canon A Hwf)]. Qed.
+
+  (* the table, for every coefficient structure *)
+  Lemma std_inv2 {T} (OT : ops T) op kx ky ko f : std_opd OT A no_ext op [kx; ky] = Ok (ko, f) ->
+    exists g, sassoc op poly2_table = Some g /\ gen2 OT A g kx ky = (ko, f).
+  Proof. unfold std_opd. destruct (sassoc op poly2_table) as [g|]; [intros H; inversion H; eauto | discriminate]. Qed.
+  Lemma std_inv1 {T} (OT : ops T) op kx ko f : std_opd OT A no_ext op [kx] = Ok (ko, f) ->
+    (String.eqb op "polarity" = true /\ gen_polarity OT A kx = Ok (ko, f)) \/
+    (String.eqb op "polarity" = false /\ exists g, sassoc op poly1_table = Some g /\ gen1 OT A g kx = (ko, f)).
+  Proof.
+    unfold std_opd. destruct (String.eqb op "polarity"); [intros H; left; auto|].
+    destruct (sassoc op poly1_table) as [g|]; [intros H; inversion H; right; eauto | discriminate].
+  Qed.
+  Lemma polarity_indep {T U} (OT : ops T) (OU : ops U) x x' r : polarity OT A x = Ok r -> exists r', polarity OU A x' = Ok r'.
+  Proof.
+    unfold polarity. destruct (Z.eqb (sgn A (pss_key A) (pss_key A)) (-1)); [eauto|].
+    destruct (Z.eqb (sgn A (pss_key A) (pss_key A)) 1); [eauto|].
+    destruct (Z.eqb (sgn A (pss_key A) (pss_key A)) 0); discriminate.
+  Qed.
+  Lemma nat2_of op g : sassoc op poly2_table = Some g -> natural2 g.
+  Proof. intros Hs. exact (g2_nat _ _ _ _ _ _ _ _ g (poly2_good R rO rI radd rmul rsub ropp Rth A Hwf op g Hs)). Qed.
+  Lemma nat1_of op g : sassoc op poly1_table = Some g -> natural1 g.
+  Proof. intros Hs. exact (g1_nat _ _ _ _ _ _ _ _ g (poly1_good R rO rI radd rmul rsub ropp Rth A Hwf op g Hs)). Qed.
+  Lemma wf2_of op g : sassoc op poly2_table = Some g -> forall T (OT : ops T) x y, wfk' (keys (g T OT A x y)).
+  Proof. intros Hs T OT x y. exact (g2_wf _ _ _ _ _ _ _ _ g (poly2_good R rO rI radd rmul rsub ropp Rth A Hwf op g Hs) T OT x y). Qed.
+  Lemma wf1_of op g : sassoc op poly1_table = Some g -> forall T (OT : ops T) x, wfk' (keys (g T OT A x)).
+  Proof. intros Hs T OT x. exact (g1_wf _ _ _ _ _ _ _ _ g (poly1_good R rO rI radd rmul rsub ropp Rth A Hwf op g Hs) T OT x). Qed.
+
+  Lemma std_static2 op k1 k2 k1' k2' koN fN : opdN op [k1; k2] = Ok (koN, fN) ->
+    exists koS fS, opdS op [k1'; k2'] = Ok (koS, fS) /\ wfk' koS /\ wfk' koN.
+  Proof.
+    intros H. destruct (std_inv2 O op k1 k2 koN fN H) as [g [Hs Hg]]. unfold gen2 in Hg. injection Hg as Eko Ef. subst koN fN.
+    unfold std_opd. rewrite Hs. unfold gen2. eexists. eexists. split; [reflexivity|]. split; apply (wf2_of op g Hs).
+  Qed.
+  Lemma std_static1 op k k' koN fN : opdN op [k] = Ok (koN, fN) ->
+    exists koS fS, opdS op [k'] = Ok (koS, fS) /\ wfk' koS /\ wfk' koN.
+  Proof.
+    intros H. destruct (std_inv1 O op k koN fN H) as [[Hp Hg]|[Hp [g [Hs Hg]]]].
+    - unfold gen_polarity in Hg. inv_bindn Hg as ku Hku. injection Hg as Eko Ef. subst koN fN.
+      destruct (polarity_indep Uops Uops (ksym k) (ksym k') ku Hku) as [ku' Hku'].
+      unfold std_opd. rewrite Hp. unfold gen_polarity. rewrite Hku'. cbn [bind]. eexists. eexists. split; [reflexivity|].
+      split; [exact (polarity_wf A Hwf Uops _ _ Hku') | exact (polarity_wf A Hwf Uops _ _ Hku)].
+    - unfold gen1 in Hg. injection Hg as Eko Ef. subst koN fN.
+      unfold std_opd. rewrite Hp, Hs. unfold gen1. eexists. eexists. split; [reflexivity|]. split; apply (wf1_of op g Hs).
+  Qed.
+
+  (* every generated function of the table returns, with one value per key *)
+  Lemma std_apply2 {T} (OT : ops T) op kx ky ko f vx vy : std_opd OT A no_ext op [kx; ky] = Ok (ko, f) ->
+    length vx = length kx -> length vy = length ky -> exists r, f [vx; vy] = Ok r /\ length r = length ko.
+  Proof.
+    intros H Lx Ly. destruct (std_inv2 OT op kx ky ko f H) as [g [Hs Hg]]. unfold gen2 in Hg. inversion Hg; subst ko f. clear Hg.
+    cbn beta iota. rewrite Lx, Ly, !Nat.eqb_refl. cbn [andb]. eexists. split; [reflexivity|].
+    rewrite length_vals, <- length_keys. f_equal.
+    rewrite <- (keys_map_mv (fun _ : T => tt)). rewrite (nat2_of op g Hs T unit OT Uops _ (unit_hom_any OT) A).
+    rewrite !map_tt_any, !keys_combine by assumption. reflexivity.
+  Qed.
+  Lemma std_apply1 {T} (OT : ops T) op kx ko f vx : std_opd OT A no_ext op [kx] = Ok (ko, f) ->
+    length vx = length kx -> exists r, f [vx] = Ok r /\ length r = length ko.
+  Proof.
+    intros H Lx. destruct (std_inv1 OT op kx ko f H) as [[Hp Hg]|[Hp [g [Hs Hg]]]].
+    - unfold gen_polarity in Hg. inv_bindn Hg as ku Hku. inversion Hg; subst ko f. clear Hg.
+      cbn beta iota. rewrite Lx, Nat.eqb_refl.
+      pose proof (nat_polarity OT Uops (fun _ : T => tt) (unit_hom_any OT) A (combine kx vx)) as Hn.
+      rewrite map_tt_any, keys_combine, Hku in Hn by exact Lx.
+      destruct (polarity OT A (combine kx vx)) as [r|e]; cbn [map_res] in Hn; [|discriminate].
+      cbn [bind]. eexists. split; [reflexivity|]. inversion Hn; subst ku.
+      rewrite length_vals, <- length_keys, keys_map_mv. reflexivity.
+    - unfold gen1 in Hg. inversion Hg; subst ko f. clear Hg.
+      cbn beta iota. rewrite Lx, Nat.eqb_refl. eexists. split; [reflexivity|].
+      rewrite length_vals, <- length_keys. f_equal.
+      rewrite <- (keys_map_mv (fun _ : T => tt)). rewrite (nat1_of op g Hs T unit OT Uops _ (unit_hom_any OT) A).
+      rewrite !map_tt_any, !keys_combine by assumption. reflexivity.
+  Qed.
+
+  (* an operator node of the tape on related operands *)
+  Lemma node1 op ksS ksN koS fS koN fN aS aN : opdS op [ksS] = Ok (koS, fS) -> opdN op [ksN] = Ok (koN, fN) ->
+    length aS = length ksS -> length aN = length ksN -> simm (combine ksS aS) (combine ksN aN) ->
+    exists rS rN, fS [aS] = Ok rS /\ fN [aN] = Ok rN /\ length rS = length koS /\ length rN = length koN
+                  /\ simm (combine koS rS) (combine koN rN).
+  Proof.
+    intros HS HN LS LN Hsim.
+    destruct (std_apply1 OS op ksS koS fS aS HS LS) as [rS [FS LrS]].
+    destruct (std_apply1 O op ksN koN fN aN HN LN) as [rN [FN LrN]].
+    exists rS, rN. spl; try assumption.
+    assert (CN : call_op opdN op [combine ksN aN] = Ok (combine koN rN)).
+    { unfold call_op. cbn [map]. rewrite keys_combine, vals_combine by exact LN. rewrite HN. cbn [bind]. rewrite FN. reflexivity. }
+    assert (CS : call_op opdS op [combine ksS aS] = Ok (combine koS rS)).
+    { unfold call_op. cbn [map]. rewrite keys_combine, vals_combine by exact LS. rewrite HS. cbn [bind]. rewrite FS. reflexivity. }
+    destruct (call_std_sim no_ext no_ext noext_sim op [combine ksS aS] [combine ksN aN] _ (Forall2_cons _ _ Hsim (Forall2_nil _)) CN)
+      as [m' [Em Sm]].
+    rewrite CS in Em. inversion Em; subst m'. exact Sm.
+  Qed.
+  Lemma node2 op k1S k2S k1N k2N koS fS koN fN a1S a2S a1N a2N :
+    opdS op [k1S; k2S] = Ok (koS, fS) -> opdN op [k1N; k2N] = Ok (koN, fN) ->
+    length a1S = length k1S -> length a2S = length k2S -> length a1N = length k1N -> length a2N = length k2N ->
+    simm (combine k1S a1S) (combine k1N a1N) -> simm (combine k2S a2S) (combine k2N a2N) ->
+    exists rS rN, fS [a1S; a2S] = Ok rS /\ fN [a1N; a2N] = Ok rN /\ length rS = length koS /\ length rN = length koN
+                  /\ simm (combine koS rS) (combine koN rN).
+  Proof.
+    intros HS HN L1S L2S L1N L2N Hs1 Hs2.
+    destruct (std_apply2 OS op k1S k2S koS fS a1S a2S HS L1S L2S) as [rS [FS LrS]].
+    destruct (std_apply2 O op k1N k2N koN fN a1N a2N HN L1N L2N) as [rN [FN LrN]].
+    exists rS, rN. spl; try assumption.
+    assert (CN : call_op opdN op [combine k1N a1N; combine k2N a2N] = Ok (combine koN rN)).
+    { unfold call_op. cbn [map]. rewrite !keys_combine, !vals_combine by assumption. rewrite HN. cbn [bind]. rewrite FN. reflexivity. }
+    assert (CS : call_op opdS op [combine k1S a1S; combine k2S a2S] = Ok (combine koS rS)).
+    { unfold call_op. cbn [map]. rewrite !keys_combine, !vals_combine by assumption. rewrite HS. cbn [bind]. rewrite FS. reflexivity. }
+    destruct (call_std_sim no_ext no_ext noext_sim op [combine k1S a1S; combine k2S a2S] [combine k1N a1N; combine k2N a2N] _
+                (Forall2_cons _ _ Hs1 (Forall2_cons _ _ Hs2 (Forall2_nil _))) CN) as [m' [Em Sm]].
+    rewrite CS in Em. inversion Em; subst m'. exact Sm.
+  Qed.
+
+  (* recorder values: statically (keys) and at run time (the tapes return related value lists) *)
+  Definition srs (rS : @rval S) (rN : @rval R) : Prop :=
+    match rS, rN with
+    | RNum s, RNum r => simc s r
+    | RRec ksS _, RRec ksN _ => wfk' ksS /\ wfk' ksN
+    | _, _ => False
+    end.
+  Definition srd (venvS : list (list S)) (venvN : list (list R)) (rS : @rval S) (rN : @rval R) : Prop :=
+    match rS, rN with
+    | RRec ksS tS, RRec ksN tN =>
+        exists aS aN, runS venvS tS = Ok aS /\ runN venvN tN = Ok aN /\ length aS = length ksS /\ length aN = length ksN
+                      /\ simm (combine ksS aS) (combine ksN aN)
+    | _, _ => True
+    end.
+  Local Notation rvS := (@rval S).
+  Local Notation rvN := (@rval R).
+  Definition SR1 (FS : rvS -> res rvS) (FN : rvN -> res rvN) : Prop :=
+    forall rS rN qN, srs rS rN -> FN rN = Ok qN ->
+      exists qS, FS rS = Ok qS /\ srs qS qN /\ forall venvS venvN, srd venvS venvN rS rN -> srd venvS venvN qS qN.
+  Definition SR2 (FS : rvS -> rvS -> res rvS) (FN : rvN -> rvN -> res rvN) : Prop :=
+    forall r1S r1N r2S r2N qN, srs r1S r1N -> srs r2S r2N -> FN r1N r2N = Ok qN ->
+      exists qS, FS r1S r2S = Ok qS /\ srs qS qN /\
+        forall venvS venvN, srd venvS venvN r1S r1N -> srd venvS venvN r2S r2N -> srd venvS venvN qS qN.
+
+  Lemma sr_unary op ksS tS ksN tN qN : rec_unary opdN op ksN tN = Ok qN ->
+    exists qS, rec_unary opdS op ksS tS = Ok qS /\ srs qS qN /\
+      forall venvS venvN, srd venvS venvN (RRec ksS tS) (RRec ksN tN) -> srd venvS venvN qS qN.
+  Proof.
+    intros H. unfold rec_unary in H. inv_bindn H as kf Hkf. destruct kf as [koN fN]. inversion H; subst qN. clear H.
+    destruct (std_static1 op ksN ksS koN fN Hkf) as [koS [fS [HS [WS WN]]]].
+    exists (RRec koS (TOp op [ksS] [tS])). split; [unfold rec_unary; rewrite HS; reflexivity|]. split; [split; assumption|].
+    intros venvS venvN [aS [aN [RS [RN [LS [LN Hsim]]]]]].
+    destruct (node1 op ksS ksN koS fS koN fN aS aN HS Hkf LS LN Hsim) as [rS [rN [FS [FN [LrS [LrN Hr]]]]]].
+    exists rS, rN.
+    rewrite (run_TOp1 S sO sI sadd smul ssub sopp), HS, (run_TOp1 R rO rI radd rmul rsub ropp), Hkf. cbn [bind].
+    rewrite RS, RN. cbn [bind]. spl; assumption.
+  Qed.
+  Lemma srd_num venvS venvN s r : simc s r -> srd venvS venvN (RRec [0] (TNum s)) (RRec [0] (TNum r)).
+  Proof. intros H. exists [s], [r]. spl; try reflexivity. cbn [combine]. apply simm_scalar. exact H. Qed.
+  Lemma sr_binary op ksS tS ksN tN r2S r2N qN : srs r2S r2N -> rec_binary opdN op ksN tN r2N = Ok qN ->
+    exists qS, rec_binary opdS op ksS tS r2S = Ok qS /\ srs qS qN /\
+      forall venvS venvN, srd venvS venvN (RRec ksS tS) (RRec ksN tN) -> srd venvS venvN r2S r2N -> srd venvS venvN qS qN.
+  Proof.
+    intros Hr H.
+    assert (Hgen : forall k2S t2S k2N t2N koN fN, opdN op [ksN; k2N] = Ok (koN, fN) ->
+              exists koS fS, opdS op [ksS; k2S] = Ok (koS, fS) /\ wfk' koS /\ wfk' koN /\
+                forall venvS venvN, srd venvS venvN (RRec ksS tS) (RRec ksN tN) ->
+                  srd venvS venvN (RRec k2S t2S) (RRec k2N t2N) ->
+                  srd venvS venvN (RRec koS (TOp op [ksS; k2S] [tS; t2S])) (RRec koN (TOp op [ksN; k2N] [tN; t2N]))).
+    { intros k2S t2S k2N t2N koN fN HN.
+      destruct (std_static2 op ksN k2N ksS k2S koN fN HN) as [koS [fS [HS [WS WN]]]].
+      exists koS, fS. split; [exact HS|]. split; [exact WS|]. split; [exact WN|].
+      intros venvS venvN [a1S [a1N [R1S [R1N [L1S [L1N Hs1]]]]]] [a2S [a2N [R2S [R2N [L2S [L2N Hs2]]]]]].
+      destruct (node2 op ksS k2S ksN k2N koS fS koN fN a1S a2S a1N a2N HS HN L1S L2S L1N L2N Hs1 Hs2)
+        as [rS [rN [FS [FN [LrS [LrN Hrr]]]]]].
+      exists rS, rN.
+      rewrite (run_TOp2 S sO sI sadd smul ssub sopp), HS, (run_TOp2 R rO rI radd rmul rsub ropp), HN. cbn [bind].
+      rewrite R1S, R2S, R1N, R2N. cbn [bind]. spl; assumption. }
+    destruct r2S as [c|k2S t2S], r2N as [c'|k2N t2N]; cbn [srs] in Hr; try contradiction; cbn [rec_binary] in H |- *.
+    - inv_bindn H as kf Hkf. destruct kf as [koN fN]. inversion H; subst qN. clear H.
+      destruct (Hgen [0] (TNum c) [0] (TNum c') koN fN Hkf) as [koS [fS [HS [WS [WN D]]]]].
+      rewrite HS. cbn [bind]. eexists. split; [reflexivity|]. split; [split; assumption|].
+      intros venvS venvN D1 _. apply D; [exact D1 | apply srd_num; exact Hr].
+    - inv_bindn H as kf Hkf. destruct kf as [koN fN]. inversion H; subst qN. clear H.
+      destruct (Hgen k2S t2S k2N t2N koN fN Hkf) as [koS [fS [HS [WS [WN D]]]]].
+      rewrite HS. cbn [bind]. eexists. split; [reflexivity|]. split; [split; assumption|]. exact D.
+  Qed.
+
+  Lemma sr_meth1 m : SR1 (rec_meth1 opdS tapetab m) (rec_meth1 opdN tapetab m).
+  Proof.
+    intros rS rN qN Hr H. destruct rS as [c|ksS tS], rN as [c'|ksN tN]; cbn [srs] in Hr; try contradiction; cbn [rec_meth1] in H |- *; try discriminate.
+    destruct (mlookup m tapetab) as [[[op sw] [|[|ar]]]|]; try discriminate.
+    exact (sr_unary op ksS tS ksN tN qN H).
+  Qed.
+  Lemma sr_meth2tab m : SR2 (rec_meth2tab opdS tapetab m) (rec_meth2tab opdN tapetab m).
+  Proof.
+    intros r1S r1N r2S r2N qN Hr1 Hr2 H.
+    destruct r1S as [c|ksS tS], r1N as [c'|ksN tN]; cbn [srs] in Hr1; try contradiction; cbn [rec_meth2tab] in H |- *; try discriminate.
+    destruct (mlookup m tapetab) as [[[op sw] [|[|[|ar]]]]|]; try discriminate.
+    exact (sr_binary op ksS tS ksN tN r2S r2N qN Hr2 H).
+  Qed.
+  Lemma sr_special m : SR2 (rec_special opdS tapetab m) (rec_special opdN tapetab m).
+  Proof.
+    intros r1S r1N r2S r2N qN Hr1 Hr2 H. unfold rec_special in *.
+    destruct (String.eqb m "__rsub__").
+    - inv_bindn H as n Hn. destruct (sr_meth1 "__neg__" r1S r1N n Hr1 Hn) as [n' [E1 [S1 D1]]]. rewrite E1. cbn [bind].
+      destruct r2S as [c|k2 t2], r2N as [c'|k2' t2']; cbn [srs] in Hr2; try contradiction.
+      + destruct (sr_meth2tab "__radd__" n' n (RNum c) (RNum c') qN S1 Hr2 H) as [q' [E [S0 D]]].
+        exists q'. split; [exact E|]. split; [exact S0|]. intros. apply D; [apply D1; assumption | exact I].
+      + destruct (sr_meth2tab "__add__" (RRec k2 t2) (RRec k2' t2') n' n qN Hr2 S1 H) as [q' [E [S0 D]]].
+        exists q'. split; [exact E|]. split; [exact S0|]. intros. apply D; [|apply D1]; assumption.
+    - destruct (String.eqb m "__rmul__").
+      + destruct r2S as [c|k2 t2], r2N as [c'|k2' t2']; cbn [srs] in Hr2; try contradiction.
+        * destruct (sr_meth2tab "gp" r1S r1N (RNum c) (RNum c') qN Hr1 Hr2 H) as [q' [E [S0 D]]]. exists q'. auto.
+        * destruct (sr_meth2tab "gp" (RRec k2 t2) (RRec k2' t2') r1S r1N qN Hr2 Hr1 H) as [q' [E [S0 D]]]. exists q'. auto.
+      + destruct (String.eqb m "__rxor__"); [|discriminate].
+        destruct r2S as [c|k2 t2], r2N as [c'|k2' t2']; cbn [srs] in Hr2; try contradiction.
+        * destruct (sr_meth2tab "op" r1S r1N (RNum c) (RNum c') qN Hr1 Hr2 H) as [q' [E [S0 D]]]. exists q'. auto.
+        * destruct (sr_meth2tab "op" (RRec k2 t2) (RRec k2' t2') r1S r1N qN Hr2 Hr1 H) as [q' [E [S0 D]]]. exists q'. auto.
+  Qed.
+  Lemma sr_meth2 m : SR2 (rec_meth2 opdS tapetab m) (rec_meth2 opdN tapetab m).
+  Proof.
+    intros r1S r1N r2S r2N qN Hr1 Hr2 H.
+    destruct r1S as [c|ksS tS], r1N as [c'|ksN tN]; cbn [srs] in Hr1; try contradiction; cbn [rec_meth2] in H |- *; try discriminate.
+    destruct (mlookup m tapetab).
+    - exact (sr_meth2tab m (RRec ksS tS) (RRec ksN tN) r2S r2N qN Hr1 Hr2 H).
+    - exact (sr_special m (RRec ksS tS) (RRec ksN tN) r2S r2N qN Hr1 Hr2 H).
+  Qed.
+  Lemma sr_prefix u : SR1 (rec_prefix OS opdS tapetab u) (rec_prefix O opdN tapetab u).
+  Proof.
+    intros rS rN qN Hr H. destruct rS as [c|ksS tS], rN as [c'|ksN tN]; cbn [srs] in Hr; try contradiction.
+    - cbn [rec_prefix] in *. destruct u; [|discriminate]. inversion H; subst qN. eexists. split; [reflexivity|].
+      split; [cbn [srs o_neg]; apply simc_neg; exact Hr | intros; exact I].
+    - exact (sr_meth1 (pdunder u) (RRec ksS tS) (RRec ksN tN) qN Hr H).
+  Qed.
+  Lemma sr_infix o : SR2 (rec_infix OS opdS tapetab o) (rec_infix O opdN tapetab o).
+  Proof.
+    intros r1S r1N r2S r2N qN Hr1 Hr2 H.
+    destruct r1S as [a|k1 t1], r1N as [a'|k1' t1']; cbn [srs] in Hr1; try contradiction.
+    - destruct r2S as [b|k2 t2], r2N as [b'|k2' t2']; cbn [srs] in Hr2; try contradiction.
+      + cbn [rec_infix] in *.
+        destruct o; try discriminate; inversion H; subst qN; (eexists; split; [reflexivity|]);
+          (split; [cbn [srs o_add o_sub o_mul]; first [apply simc_add | apply simc_sub | apply simc_mul]; assumption | intros; exact I]).
+      + cbn [rec_infix] in H |- *.
+        destruct (sr_meth2 (rdunder o) (RRec k2 t2) (RRec k2' t2') (RNum a) (RNum a') qN Hr2 Hr1 H) as [q' [E [S0 D]]].
+        exists q'. split; [exact E|]. split; [exact S0|]. intros. apply D; [assumption | exact I].
+    - exact (sr_meth2 (dunder o) (RRec k1 t1) (RRec k1' t1') r2S r2N qN Hr1 Hr2 H).
+  Qed.
+  Lemma sr_pow_loop n xS xN : srs xS xN -> forall accS accN qN, srs accS accN ->
+    pow_loop n (fun a => rec_meth2 opdN tapetab "gp" a xN) accN = Ok qN ->
+    exists qS, pow_loop n (fun a => rec_meth2 opdS tapetab "gp" a xS) accS = Ok qS /\ srs qS qN /\
+      forall venvS venvN, srd venvS venvN xS xN -> srd venvS venvN accS accN -> srd venvS venvN qS qN.
+  Proof.
+    intros Hx. induction n as [|n IH]; intros accS accN qN Ha H; cbn [pow_loop] in *.
+    - inversion H; subst qN. exists accS. auto.
+    - inv_bindn H as y Hy. destruct (sr_meth2 "gp" accS accN xS xN y Ha Hx Hy) as [y' [E1 [S1 D1]]].
+      rewrite E1. cbn [bind]. destruct (IH y' y qN S1 H) as [q' [E2 [S2 D2]]].
+      exists q'. split; [exact E2|]. split; [exact S2|]. intros. apply D2; [assumption|]. apply D1; assumption.
+  Qed.
+  Lemma sr_pow n : SR1 (fun r => rec_pow opdS tapetab r n) (fun r => rec_pow opdN tapetab r n).
+  Proof.
+    intros rS rN qN Hr H. destruct rS as [c|ksS tS], rN as [c'|ksN tN]; cbn [srs] in Hr; try contradiction; cbn [rec_pow] in H |- *; try discriminate.
+    destruct (n =? 0).
+    - inversion H; subst qN. eexists. split; [reflexivity|]. split; [split; exact wfk0|].
+      intros venvS venvN _. exists [sI], [rI]. spl; try reflexivity. cbn [combine]. apply simm_scalar. exact simc_one.
+    - inv_bindn H as x Hx. destruct (n <? 0).
+      + destruct (sr_meth1 "inv" (RRec ksS tS) (RRec ksN tN) x Hr Hx) as [x' [E1 [S1 D1]]]. rewrite E1. cbn [bind].
+        destruct (sr_pow_loop _ x' x S1 x' x qN S1 H) as [q' [E2 [S2 D2]]].
+        exists q'. split; [exact E2|]. split; [exact S2|]. intros. apply D2; apply D1; assumption.
+      + inversion Hx; subst x. cbn [bind].
+        destruct (sr_pow_loop _ (RRec ksS tS) (RRec ksN tN) Hr (RRec ksS tS) (RRec ksN tN) qN Hr H) as [q' [E2 [S2 D2]]].
+        exists q'. split; [exact E2|]. split; [exact S2|]. intros. apply D2; assumption.
+  Qed.
+  Lemma sr_dual un k : SR1 (fun r => rec_dual A opdS tapetab un r k) (fun r => rec_dual A opdN tapetab un r k).
+  Proof.
+    intros rS rN qN Hr H. destruct rS as [c|ksS tS], rN as [c'|ksN tN]; cbn [srs] in Hr; try contradiction; cbn [rec_dual] in H |- *; try discriminate.
+    inv_bindn H as m Hm. rewrite Hm. cbn [bind]. exact (sr_meth1 m (RRec ksS tS) (RRec ksN tN) qN Hr H).
+  Qed.
+  Lemma sr_norm : SR1 (rec_norm opdS tapetab) (rec_norm opdN tapetab).
+  Proof.
+    intros rS rN qN Hr H. unfold rec_norm in *. inv_bindn H as n Hn.
+    destruct (sr_meth1 "normsq" rS rN n Hr Hn) as [n' [E1 [S1 D1]]]. rewrite E1. cbn [bind].
+    destruct (sr_meth1 "sqrt" n' n qN S1 H) as [q' [E2 [S2 D2]]]. exists q'. split; [exact E2|]. split; [exact S2|].
+    intros. apply D2, D1. assumption.
+  Qed.
+  Lemma sr_normalized : SR1 (rec_normalized OS opdS tapetab) (rec_normalized O opdN tapetab).
+  Proof.
+    intros rS rN qN Hr H. destruct rS as [c|ksS tS], rN as [c'|ksN tN]; cbn [srs] in Hr; try contradiction; cbn [rec_normalized] in H |- *; try discriminate.
+    inv_bindn H as n Hn. destruct (sr_norm (RRec ksS tS) (RRec ksN tN) n Hr Hn) as [n' [E1 [S1 D1]]]. rewrite E1. cbn [bind].
+    destruct (sr_infix IDiv (RRec ksS tS) (RRec ksN tN) n' n qN Hr S1 H) as [q' [E2 [S2 D2]]].
+    exists q'. split; [exact E2|]. split; [exact S2|]. intros. apply D2; [assumption | apply D1; assumption].
+  Qed.
+
+  (* grade selection on the recorder: a filter by key on both sides *)
+  Lemma keys_keyfilter {T} (P : Z -> bool) (x : mv T) : keys (filter (fun kv => P (fst kv)) x) = filter P (keys x).
+  Proof. induction x as [|[k v] r IH]; [reflexivity|]. cbn [filter keys map fst]. destruct (P k); cbn [keys map fst]; unfold keys in IH; rewrite IH; reflexivity. Qed.
+  Lemma coeff_keyfilter {T} (tO tI : T) (tadd tmul tsub : T -> T -> T) (topp : T -> T) (P : Z -> bool) (x : mv T) K :
+    coeff (mkOps T tadd tsub tmul topp tO tI) K (filter (fun kv => P (fst kv)) x)
+    = if P K then coeff (mkOps T tadd tsub tmul topp tO tI) K x else tO.
+  Proof.
+    induction x as [|[k v] r IH]; [destruct (P K); reflexivity|]. cbn [filter fst].
+    destruct (P k) eqn:Ek; rewrite !(coeff_cons T tO tI tadd tmul tsub topp); destruct (Z.eqb k K) eqn:E; try exact IH.
+    - apply Z.eqb_eq in E. subst K. rewrite Ek. reflexivity.
+    - rewrite IH. apply Z.eqb_eq in E. subst K. rewrite Ek. reflexivity.
+  Qed.
+  Lemma simm_keyfilter (P : Z -> bool) x y : simm x y ->
+    simm (filter (fun kv => P (fst kv)) x) (filter (fun kv => P (fst kv)) y).
+  Proof.
+    intros [[Hq [Hn [Hm He]]] [Hi Hj]].
+    split; [|split; rewrite keys_keyfilter; intros K HK; apply filter_In in HK; [apply Hi | apply Hj]; apply HK].
+    split; [unfold all_coeffs in *; rewrite Forall_forall in *; intros kv Hkv; apply filter_In in Hkv; apply Hq, Hkv|].
+    rewrite !keys_keyfilter. split; [apply NoDup_filter; exact Hn|]. split; [apply NoDup_filter; exact Hm|].
+    intros K. assert (E : mh (filter (fun kv => P (fst kv)) x) = filter (fun kv => P (fst kv)) (mh x)).
+    { clear. induction x as [|[k v] r IH]; [reflexivity|]. unfold map_mv in *. cbn [filter map fst snd]. destruct (P k); cbn [map fst snd]; rewrite IH; reflexivity. }
+    rewrite E, !(coeff_keyfilter rO rI radd rmul rsub ropp). destruct (P K); [apply He | reflexivity].
+  Qed.
+  Lemma sr_grade gs : SR1 (fun r => rec_grade A r gs) (fun r => rec_grade A r gs).
+  Proof.
+    intros rS rN qN Hr H. destruct rS as [c|ksS tS], rN as [c'|ksN tN]; cbn [srs] in Hr; try contradiction; cbn [rec_grade] in H |- *; try discriminate.
+    destruct Hr as [WS WN]. inv_bindn H as bb Hbb. rewrite Hbb. cbn [bind]. inversion H; subst qN. clear H.
+    eexists. split; [reflexivity|]. rewrite !(enum_filter_keys (fun k => zin k bb)).
+    split; [split; apply wfk_filter; assumption|].
+    intros venvS venvN [aS [aN [RS [RN [LS [LN Hsim]]]]]].
+    exists (selv S (fun k => zin k bb) ksS aS), (selv R (fun k => zin k bb) ksN aN).
+    rewrite (run_TSel S sO sI sadd smul ssub sopp), RS, (run_TSel R rO rI radd rmul rsub ropp), RN. cbn [bind].
+    destruct (selv_combine S (fun k => zin k bb) ksS aS LS) as [E1 E2].
+    destruct (selv_combine R (fun k => zin k bb) ksN aN LN) as [E1' E2'].
+    split; [exact (enum_filter_vals0 S (fun k => zin k bb) ksS aS LS)|].
+    split; [exact (enum_filter_vals0 R (fun k => zin k bb) ksN aN LN)|].
+    split; [exact E2|]. split; [exact E2'|]. rewrite E1, E1'. apply (simm_keyfilter (fun k => zin k bb)). exact Hsim.
+  Qed.
+
+  (* coefficient access on the recorder *)
+  Lemma idx_coeff {T} (tO tI : T) (tadd tmul tsub : T -> T -> T) (topp : T -> T) b ks (a : list T) :
+    NoDup ks -> length a = length ks ->
+    match zindex b ks with
+    | Some idx => exists v, nth_error a idx = Some v /\ coeff (mkOps T tadd tsub tmul topp tO tI) b (combine ks a) = v
+    | None => coeff (mkOps T tadd tsub tmul topp tO tI) b (combine ks a) = tO
+    end.
+  Proof.
+    intros Hn Hl. destruct (zindex b ks) as [idx|] eqn:Hz.
+    - destruct (idx_value T b ks idx a Hz Hl) as [v [Hv Hin]]. exists v. split; [exact Hv|].
+      apply (coeff_in T tO tI tadd tmul tsub topp); [rewrite keys_combine by exact Hl; exact Hn | exact Hin].
+    - apply (coeff_notin T tO tI tadd tmul tsub topp). rewrite keys_combine by exact Hl. apply zindex_none. exact Hz.
+  Qed.
+  Lemma sr_getattr nm : SR1 (fun r => rec_getattr A r nm) (fun r => rec_getattr A r nm).
+  Proof.
+    intros rS rN qN Hr H. destruct rS as [c|ksS tS], rN as [c'|ksN tN]; cbn [srs] in Hr; try contradiction; cbn [rec_getattr] in H |- *; try discriminate.
+    destruct Hr as [WS WN].
+    assert (Hzero : forall venvS venvN, srd venvS venvN (RRec [0] (@TZero S)) (RRec [0] (@TZero R))).
+    { intros. exists [sO], [rO]. spl; try reflexivity. cbn [combine]. apply simm_scalar. exact simc_zero. }
+    destruct (blade2canon A nm) as [[cn|] swaps];
+      [|inversion H; subst qN; eexists; split; [reflexivity|]; split; [split; exact wfk0 | intros; apply Hzero]].
+    destruct (canon2bin A cn) as [b|];
+      [|inversion H; subst qN; eexists; split; [reflexivity|]; split; [split; exact wfk0 | intros; apply Hzero]].
+    assert (Hsg : forall s r, simc s r -> simc (if Z.odd swaps then sopp s else s) (if Z.odd swaps then ropp r else r)).
+    { intros s r Hsr. destruct (Z.odd swaps); [apply simc_neg; exact Hsr | exact Hsr]. }
+    assert (Hz0 : h sO = rO) by exact (homon_zero _ _ _ _ Hh).
+    assert (Hr0 : (if Z.odd swaps then ropp rO else rO) = rO) by (destruct (Z.odd swaps); [apply ropp_zero | reflexivity]).
+    destruct (zindex b ksN) as [idxN|] eqn:HzN; inversion H; subst qN; clear H;
+      destruct (zindex b ksS) as [idxS|] eqn:HzS; (eexists; split; [reflexivity|]; split; [split; exact wfk0|]);
+      intros venvS venvN [aS [aN [RS [RN [LS [LN Hsim]]]]]];
+      pose proof (simw_coeff b _ _ (simm_simw _ _ Hsim)) as Hcb;
+      pose proof (idx_coeff sO sI sadd smul ssub sopp b ksS aS (proj1 WS) LS) as HS; rewrite HzS in HS;
+      pose proof (idx_coeff rO rI radd rmul rsub ropp b ksN aN (proj1 WN) LN) as HN; rewrite HzN in HN.
+    - destruct HS as [vS [EvS EcS]]. destruct HN as [vN [EvN EcN]]. rewrite EcS, EcN in Hcb.
+      eexists. eexists. rewrite (run_TIdx S sO sI sadd smul ssub sopp), RS, (run_TIdx R rO rI radd rmul rsub ropp), RN. cbn [bind].
+      rewrite EvS, EvN. cbn [of_opt bind]. spl; try reflexivity. cbn [combine]. apply simm_scalar. apply Hsg. exact Hcb.
+    - destruct HN as [vN [EvN EcN]]. rewrite HS, EcN in Hcb.
+      eexists. eexists. rewrite (run_TIdx R rO rI radd rmul rsub ropp), RN. cbn [bind]. rewrite EvN. cbn [of_opt bind].
+      split; [reflexivity|]. spl; try reflexivity. cbn [combine]. apply simm_scalar.
+      destruct Hcb as [Q0 E0]. assert (EvN0 : vN = rO) by (rewrite <- E0; exact Hz0). rewrite EvN0.
+      split; [exact Q0 | rewrite Hr0; exact Hz0].
+    - destruct HS as [vS [EvS EcS]]. rewrite EcS, HN in Hcb.
+      eexists. eexists. rewrite (run_TIdx S sO sI sadd smul ssub sopp), RS. cbn [bind]. rewrite EvS. cbn [of_opt bind].
+      split; [reflexivity|]. split; [reflexivity|]. spl; try reflexivity. cbn [combine]. apply simm_scalar.
+      apply Hsg in Hcb. rewrite Hr0 in Hcb. exact Hcb.
+    - apply Hzero.
+  Qed.
+
+  (* the value lists bound to the parameters *)
+  Definition EnvD (kenvS kenvN : list (list Z)) (venvS : list (list S)) (venvN : list (list R)) : Prop :=
+    forall i ksS ksN, nth_error kenvS i = Some ksS -> nth_error kenvN i = Some ksN ->
+      srd venvS venvN (RRec ksS (TArg i)) (RRec ksN (TArg i)).
+  Definition mkr {T} (kt : list Z * tape T) : @rval T := RRec (fst kt) (snd kt).
+  Lemma asrec_srs rS rN : srs rS rN -> srs (mkr (as_rec rS)) (mkr (as_rec rN)).
+  Proof. destruct rS as [c|ks t], rN as [c'|ks' t']; cbn; try contradiction; [intros _; split; exact wfk0 | tauto]. Qed.
+  Lemma asrec_srd venvS venvN rS rN : srs rS rN -> srd venvS venvN rS rN -> srd venvS venvN (mkr (as_rec rS)) (mkr (as_rec rN)).
+  Proof.
+    destruct rS as [c|ks t], rN as [c'|ks' t']; cbn [srs]; try contradiction; [|intros _ H; exact H].
+    intros Hc0 _. cbn [as_rec mkr fst snd]. apply srd_num. exact Hc0.
+  Qed.
+  Lemma srs_shape rS rN : srs rS rN -> is_rec rS = is_rec rN.
+  Proof. destruct rS, rN; cbn; tauto. Qed.
+  Lemma mapM_run_sim venvS venvN ktsS ktsN :
+    Forall2 (fun a b => srd venvS venvN (mkr a) (mkr b)) ktsS ktsN ->
+    exists argsS argsN, mapM (runS venvS) (map snd ktsS) = Ok argsS /\ mapM (runN venvN) (map snd ktsN) = Ok argsN /\
+      EnvD (map fst ktsS) (map fst ktsN) argsS argsN.
+  Proof.
+    induction 1 as [|[ksS tS] [ksN tN] lS lN H0 HF IH].
+    - exists [], []. spl; try reflexivity. intros [|i] ? ? Hn; discriminate.
+    - destruct IH as [argsS [argsN [ES [EN HE]]]]. unfold mkr in H0. cbn [srd fst snd] in H0.
+      destruct H0 as [aS [aN [RS [RN [LS [LN Hsim]]]]]].
+      exists (aS :: argsS), (aN :: argsN). cbn [map mapM snd]. rewrite RS, RN. cbn [bind]. rewrite ES, EN. cbn [bind].
+      split; [reflexivity|]. split; [reflexivity|].
+      intros [|i] k1 k1' Hn Hn'; cbn [map fst nth_error] in Hn, Hn'.
+      + inversion Hn; inversion Hn'; subst. exists aS, aN. cbn. spl; try reflexivity; assumption.
+      + exact (HE i k1 k1' Hn Hn').
+  Qed.
+
+  Theorem record_sim : forall fuel e kenvS kenvN rN, lits Q e ->
+    Forall2 (fun a b => wfk' a /\ wfk' b) kenvS kenvN ->
+    recN fuel kenvN (emap h e) = Ok rN ->
+    exists rS, recS fuel kenvS e = Ok rS /\ srs rS rN /\
+      forall venvS venvN, EnvD kenvS kenvN venvS venvN -> srd venvS venvN rS rN.
+  Proof.
+    induction fuel as [|fu IH]; intros e kenvS kenvN rN Hl Hk H; [discriminate|].
+    assert (U1 : forall FS FN e1, SR1 FS FN -> lits Q e1 ->
+              (x <- recN fu kenvN (emap h e1) ;; FN x) = Ok rN ->
+              exists rS, (x <- recS fu kenvS e1 ;; FS x) = Ok rS /\ srs rS rN /\
+                forall venvS venvN, EnvD kenvS kenvN venvS venvN -> srd venvS venvN rS rN).
+    { intros FS FN e1 HF Hl1 H1. inv_bindn H1 as x Hx.
+      destruct (IH e1 kenvS kenvN x Hl1 Hk Hx) as [x' [E [S0 D]]]. rewrite E. cbn [bind].
+      destruct (HF x' x rN S0 H1) as [r' [E2 [S2 D2]]]. exists r'. split; [exact E2|]. split; [exact S2|].
+      intros. apply D2, D. assumption. }
+    assert (U2 : forall FS FN e1 e2, SR2 FS FN -> lits Q e1 -> lits Q e2 ->
+              (x <- recN fu kenvN (emap h e1) ;; y <- recN fu kenvN (emap h e2) ;; FN x y) = Ok rN ->
+              exists rS, (x <- recS fu kenvS e1 ;; y <- recS fu kenvS e2 ;; FS x y) = Ok rS /\ srs rS rN /\
+                forall venvS venvN, EnvD kenvS kenvN venvS venvN -> srd venvS venvN rS rN).
+    { intros FS FN e1 e2 HF Hl1 Hl2 H1. inv_bindn H1 as x Hx. inv_bindn H1 as y Hy.
+      destruct (IH e1 kenvS kenvN x Hl1 Hk Hx) as [x' [E [S0 D]]]. rewrite E. cbn [bind].
+      destruct (IH e2 kenvS kenvN y Hl2 Hk Hy) as [y' [E' [S' D']]]. rewrite E'. cbn [bind].
+      destruct (HF x' x y' y rN S0 S' H1) as [r' [E2 [S2 D2]]]. exists r'. split; [exact E2|]. split; [exact S2|].
+      intros. apply D2; [apply D | apply D']; assumption. }
+    destruct e; cbn [emap lits] in Hl, H; cbn [record] in H |- *.
+    - (* EArg *)
+      inv_bindn H as ks Hks. inversion H; subst rN. clear H.
+      destruct (nth_error kenvN i) as [ksN|] eqn:Hn; cbn in Hks; [|discriminate]. inversion Hks; subst ks.
+      assert (Hx : exists ksS, nth_error kenvS i = Some ksS /\ wfk' ksS /\ wfk' ksN).
+      { clear -Hk Hn. revert i Hn. induction Hk as [|a b l l' Hab HF IHF]; intros [|i] Hn; cbn [nth_error] in *; try discriminate.
+        - inversion Hn; subst. exists a. split; [reflexivity | exact Hab].
+        - apply (IHF i Hn). }
+      destruct Hx as [ksS [HnS [WS WN]]]. rewrite HnS. cbn [of_opt bind].
+      eexists. split; [reflexivity|]. split; [split; assumption|].
+      intros venvS venvN HE. exact (HE i ksS ksN HnS Hn).
+    - (* ENum *) inversion H; subst rN. exists (RNum c). split; [reflexivity|]. split; [split; [exact Hl | reflexivity] | intros; exact I].
+    - exact (U1 _ _ e (sr_meth1 m) Hl H).
+    - exact (U2 _ _ e1 e2 (sr_meth2 m) (proj1 Hl) (proj2 Hl) H).
+    - exact (U1 _ _ e (sr_prefix u) Hl H).
+    - exact (U2 _ _ e1 e2 (sr_infix o) (proj1 Hl) (proj2 Hl) H).
+    - exact (U1 _ _ e (sr_pow n) Hl H).
+    - exact (U1 _ _ e (sr_grade gs) Hl H).
+    - exact (U1 _ _ e (sr_getattr nm) Hl H).
+    - exact (U1 _ _ e (sr_dual false k) Hl H).
+    - exact (U1 _ _ e (sr_dual true k) Hl H).
+    - exact (U1 _ _ e sr_norm Hl H).
+    - exact (U1 _ _ e sr_normalized Hl H).
+    - (* ECall *)
+      apply (proj1 (lits_call Q k args)) in Hl.
+      inv_bindn H as rs Hrs.
+      assert (HM : forall args0 rs0, Forall (lits Q) args0 -> mapM (recN fu kenvN) (map (emap h) args0) = Ok rs0 ->
+                 exists rs', mapM (recS fu kenvS) args0 = Ok rs' /\ Forall2 srs rs' rs0 /\
+                   forall venvS venvN, EnvD kenvS kenvN venvS venvN -> Forall2 (srd venvS venvN) rs' rs0).
+      { clear rs Hrs H Hl. intros args0. induction args0 as [|a0 args0 IHa]; intros rs0 Hl0 Hm; cbn [map mapM] in Hm |- *.
+        - inversion Hm; subst. exists []. split; [reflexivity|]. split; [constructor | intros; constructor].
+        - inversion Hl0 as [|? ? Hla Hlr]; subst.
+          inv_bindn Hm as y0 Hy0. inv_bindn Hm as ys Hys. inversion Hm; subst rs0. clear Hm.
+          destruct (IH a0 kenvS kenvN y0 Hla Hk Hy0) as [x' [E [S0 D]]]. rewrite E. cbn [bind].
+          destruct (IHa ys Hlr Hys) as [rs' [E' [S' D']]]. rewrite E'. cbn [bind].
+          exists (x' :: rs'). split; [reflexivity|]. split; [constructor; assumption|].
+          intros. constructor; [apply D | apply D']; assumption. }
+      destruct (HM args rs Hl Hrs) as [rs' [E [S0 D]]]. rewrite E. cbn [bind].
+      assert (Hsh : existsb is_rec rs' = existsb is_rec rs).
+      { clear -S0. induction S0 as [|a b l l' Hab HF IHF]; cbn [existsb]; [reflexivity|]. rewrite IHF, (srs_shape a b Hab). reflexivity. }
+      rewrite Hsh. destruct (existsb is_rec rs); cbn [negb] in H |- *; [|discriminate].
+      inv_bindn H as bodyN HbodyN. inv_bindn H as rb Hrb.
+      destruct (nth_error (map (emap h) bodies) k) as [bN|] eqn:EbN; cbn [of_opt] in HbodyN; [|discriminate].
+      inversion HbodyN; subst bN. clear HbodyN.
+      destruct (nth_map_inv _ _ _ _ EbN) as [body [Eb Ebody]]. subst bodyN. rewrite Eb. cbn [of_opt bind].
+      assert (Hlb : lits Q body) by (eapply Forall_nth; [exact Hbodies | exact Eb]).
+      assert (Hkin : Forall2 (fun a b => wfk' a /\ wfk' b) (map fst (map as_rec rs')) (map fst (map as_rec rs))).
+      { clear -S0 Hwf. induction S0 as [|a b l l' Hab HF IHF]; cbn [map]; [constructor|]. constructor; [|exact IHF].
+        apply asrec_srs in Hab. destruct (as_rec a) as [ka ta], (as_rec b) as [kb tb]. exact Hab. }
+      destruct (IH body _ _ rb Hlb Hkin Hrb) as [rb' [Eb' [Sb Db]]]. rewrite Eb'. cbn [bind].
+      destruct rb as [c|ko tb]; [discriminate|]. destruct rb' as [c'|ko' tb']; [contradiction|].
+      inversion H; subst rN. clear H.
+      eexists. split; [reflexivity|]. split; [exact Sb|].
+      intros venvS venvN HE.
+      assert (D2 : Forall2 (fun a b => srd venvS venvN (mkr a) (mkr b)) (map as_rec rs') (map as_rec rs)).
+      { pose proof (D venvS venvN HE) as D0. clear -S0 D0 Hwf. induction S0 as [|a b l l' Hab HF IHF]; cbn [map]; [constructor|].
+        inversion D0; subst. constructor; [apply asrec_srd; assumption | apply IHF; assumption]. }
+      destruct (mapM_run_sim venvS venvN _ _ D2) as [argsS [argsN [ES [EN HEa]]]].
+      destruct (Db argsS argsN HEa) as [aS [aN [RS [RN [LS [LN Hsim]]]]]].
+      exists aS, aN. rewrite (run_TCall S sO sI sadd smul ssub sopp), ES, (run_TCall R rO rI radd rmul rsub ropp), EN. cbn [bind].
+      spl; assumption.
+  Qed.
+
+  Lemma EnvD_mvs xs ys : Forall2 simm xs ys -> EnvD (map keys xs) (map keys ys) (map vals xs) (map vals ys).
+  Proof.
+    intros HF i ksS ksN HnS HnN.
+    destruct (nth_map_inv _ _ _ _ HnS) as [x [Ex Ek]]. destruct (nth_map_inv _ _ _ _ HnN) as [y [Ey Ek']]. subst ksS ksN.
+    destruct (Forall2_nth _ _ _ i x HF Ex) as [y1 [Ey1 Hxy]].
+    assert (y1 = y) by (pose proof (eq_trans (eq_sym Ey1) Ey) as E0; inversion E0; reflexivity). subst y1.
+    exists (vals x), (vals y). cbn [run_tape]. rewrite (map_nth_error vals i xs Ex), (map_nth_error vals i ys Ey). cbn [of_opt].
+    split; [reflexivity|]. split; [reflexivity|]. rewrite !length_vals, !length_keys, !combine_keys_vals. spl; try reflexivity. exact Hxy.
+  Qed.
+
+  (* Registry.__call__ on symbolic multivectors simulates Registry.__call__ on their values *)
+  Theorem registered_sim : reg_sim (registered OS A opdS tapetab bodies) (registered O A opdN tapetab (map (emap h) bodies)).
+  Proof.
+    intros fu k xs ys m HF H. unfold registered, compile in H |- *.
+    inv_bindn H as kt Hkt. destruct kt as [ko tb]. inv_bindn Hkt as bodyN HbodyN. inv_bindn Hkt as rb Hrb.
+    destruct rb as [c|ko0 tb0]; [discriminate|]. inversion Hkt; subst ko0 tb0. clear Hkt.
+    inv_bindn H as vs Hvs. inversion H; subst m. clear H.
+    destruct (nth_error (map (emap h) bodies) k) as [bN|] eqn:EbN; cbn [of_opt] in HbodyN; [|discriminate].
+    inversion HbodyN; subst bN. clear HbodyN.
+    destruct (nth_map_inv _ _ _ _ EbN) as [body [Eb Ebody]]. subst bodyN. rewrite Eb. cbn [of_opt bind].
+    assert (Hlb : lits Q body) by (eapply Forall_nth; [exact Hbodies | exact Eb]).
+    assert (Hkin : Forall2 (fun a b => wfk' a /\ wfk' b) (map keys xs) (map keys ys)).
+    { clear -HF. induction HF as [|x y l l' Hxy HF IHF]; cbn [map]; [constructor|]. constructor; [|exact IHF].
+      destruct (simm_wfm _ _ Hxy) as [W1 W2]. split; assumption. }
+    destruct (record_sim fu body _ _ (RRec ko tb) Hlb Hkin Hrb) as [rS [ES [S0 D]]]. rewrite ES. cbn [bind].
+    destruct rS as [c'|koS tbS]; [contradiction|]. cbn [bind].
+    destruct (D _ _ (EnvD_mvs xs ys HF)) as [aS [aN [RS [RN [LS [LN Hsim]]]]]].
+    rewrite RS. cbn [bind]. rewrite Hvs in RN. inversion RN; subst aN. eexists. split; [reflexivity | exact Hsim].
+  Qed.
+  End Rec.
+
+  (* ---------- the symbolic run of a body simulates its numeric run ---------- *)
+  (* the filter only drops stored pairs whose coefficient evaluates to zero *)
+  Definition filter_sound (F : list (mv S) -> mv S -> mv S) : Prop :=
+    forall xs X, all_coeffs Q X -> wfm S A X ->
+      exists p, F xs X = filter p X /\ forall kv, In kv X -> p kv = false -> h (snd kv) = rO.
+
+  Theorem symbolic_sim F mvtab tapetab (bodies : list (expr S)) :
+    filter_sound F -> Forall (lits Q) bodies ->
+    forall fuel (e : expr S) envS envN w, lits Q e -> Forall2 simm envS envN ->
+      direct O A (std_opd O A no_ext) mvtab tapetab (map (emap h) bodies) fuel envN (emap h e) = Ok w ->
+      exists v, symbolic_run OS A F (std_opd OS A no_ext) mvtab tapetab bodies fuel envS e = Ok v /\ simv v w.
+  Proof.
+    intros HF Hb fuel e envS envN w Hl Henv H. rewrite directG_direct in H. unfold symbolic_run.
+    refine (sim_directG mvtab _ _ _ _ _ (registered_sim tapetab bodies Hb) fuel e envS envN w Hl Henv H).
+    intros op xs ys m Hxy Hm.
+    destruct (call_std_sim no_ext no_ext noext_sim op xs ys m Hxy Hm) as [m' [Em Sm]]. rewrite Em. cbn [bind].
+    destruct (HF xs m' (proj1 (proj1 Sm)) (proj1 (simm_wfm _ _ Sm))) as [p [Ep Hp]]. eexists. split; [reflexivity|]. rewrite Ep.
+    apply simm_filter; assumption.
+  Qed.
 End Sim.
 
-(* ================= 3. the symbolic run ================= *)
-(* do_codegen(f, *symbolic multivectors): MultiVector's members as in [direct]; an operator call is
-   OperatorDict.__call__ on symbolic operands = the generated function on the symbolic value lists followed by
-   the filter [F operands result] (OperatorDict.filter; it is applied when an operand is symbolic, hence the
-   operands as a parameter); a call of a registered function is Registry.__call__ on symbolic multivectors = the
-   compiled tape on the symbolic value lists, no filter *)
-Definition symbolic_run {T} (OT : ops T) (A : alg) (F : list (mv T) -> mv T -> mv T) (opd : optable T)
-    (mvtab tapetab : mtable) (bodies : list (expr T)) : nat -> list (mv T) -> expr T -> res (@val T) :=
-  directG OT A (fun op xs => r <- call_op opd op xs ;; Ok (F xs r)) (registered OT A opd tapetab bodies) mvtab.
 
-Lemma directG_ext {T} (OT : ops T) A call call' reg reg' mvtab :
-  (forall op xs, call op xs = call' op xs) -> (forall fu k xs, reg fu k xs = reg' fu k xs) ->
-  forall fuel env e, directG OT A call reg mvtab fuel env e = directG OT A call' reg' mvtab fuel env e.
+(* ================= 3. RationalPolynomial symbols, evaluation at a valuation ================= *)
+(* OperatorDict.filter and every filter like it: whatever is dropped tests zero ([rzero] = `not coefficient`).
+   Instances: the filter of the default mode (always / only when an operand is symbolic) and no filter; the
+   grade-wise filter of graded mode (Model/Graded.v filter_graded) is another one (Theory/Graded.v
+   filter_graded_dropped). *)
+Definition drops_zero_tests (A : alg) (F : list (mv rpoly) -> mv rpoly -> mv rpoly) : Prop :=
+  forall xs X, wfm rpoly A X ->
+    exists p, F xs X = filter p X /\ forall kv, In kv X -> p kv = false -> rzero (snd kv) = true.
+Lemma filter_true {X} (l : list X) : filter (fun _ => true) l = l.
+Proof. induction l as [|a l IH]; cbn [filter]; [reflexivity | rewrite IH; reflexivity]. Qed.
+Lemma drops_filter_nz A : drops_zero_tests A (fun _ => filter_nz rzero).
 Proof.
-  intros Hcl Hrg.
-  assert (M1 : forall m v, g_meth1 call mvtab m v = g_meth1 call' mvtab m v).
-  { intros m [c|x]; cbn [g_meth1]; [reflexivity|]. destruct (mlookup m mvtab) as [[[op sw] [|[|ar]]]|]; try reflexivity.
-    rewrite Hcl. reflexivity. }
-  assert (M2 : forall m v1 v2, g_meth2 call mvtab m v1 v2 = g_meth2 call' mvtab m v1 v2).
-  { intros m [c|x] v2; cbn [g_meth2]; [reflexivity|]. destruct (mlookup m mvtab) as [[[op sw] [|[|[|ar]]]]|]; try reflexivity.
-    destruct sw; rewrite Hcl; reflexivity. }
-  assert (MI : forall o v1 v2, g_infix OT call mvtab o v1 v2 = g_infix OT call' mvtab o v1 v2).
-  { intros o [a|x] [b|y]; cbn [g_infix]; try reflexivity; apply M2. }
-  assert (MN : forall v, g_norm call mvtab v = g_norm call' mvtab v).
-  { intros v. unfold g_norm. rewrite M1. destruct (g_meth1 call' mvtab "normsq" v); cbn [bind]; [apply M1 | reflexivity]. }
-  assert (ML : forall n x acc, pow_loop n (fun r => g_meth2 call mvtab "gp" r x) acc = pow_loop n (fun r => g_meth2 call' mvtab "gp" r x) acc).
-  { induction n as [|n IHn]; intros x acc; cbn [pow_loop]; [reflexivity|]. rewrite M2.
-    destruct (g_meth2 call' mvtab "gp" acc x); cbn [bind]; [apply IHn | reflexivity]. }
-  induction fuel as [|fu IH]; intros env e; [reflexivity|].
-  destruct e; cbn [directG]; rewrite ?IH; try reflexivity.
-  - destruct (directG OT A call' reg' mvtab fu env e); cbn [bind]; [apply M1 | reflexivity].
-  - destruct (directG OT A call' reg' mvtab fu env e1); cbn [bind]; [|reflexivity].
-    destruct (directG OT A call' reg' mvtab fu env e2); cbn [bind]; [apply M2 | reflexivity].
-  - destruct (directG OT A call' reg' mvtab fu env e) as [[c|x]|]; cbn [bind g_prefix]; try reflexivity. apply M1.
-  - destruct (directG OT A call' reg' mvtab fu env e1); cbn [bind]; [|reflexivity].
-    destruct (directG OT A call' reg' mvtab fu env e2); cbn [bind]; [apply MI | reflexivity].
-  - destruct (directG OT A call' reg' mvtab fu env e) as [[c|x]|]; cbn [bind g_pow]; try reflexivity.
-    destruct (n =? 0); [reflexivity|]. destruct (n <? 0); cbn [bind]; [|apply ML].
-    rewrite M1. destruct (g_meth1 call' mvtab "inv" (VMv x)); cbn [bind]; [apply ML | reflexivity].
-  - destruct (directG OT A call' reg' mvtab fu env e) as [[c|x]|]; cbn [bind g_dual]; try reflexivity.
-    destruct (dual_member A false k); cbn [bind]; [apply M1 | reflexivity].
-  - destruct (directG OT A call' reg' mvtab fu env e) as [[c|x]|]; cbn [bind g_dual]; try reflexivity.
-    destruct (dual_member A true k); cbn [bind]; [apply M1 | reflexivity].
-  - destruct (directG OT A call' reg' mvtab fu env e); cbn [bind]; [apply MN | reflexivity].
-  - destruct (directG OT A call' reg' mvtab fu env e) as [[c|x]|]; cbn [bind g_normalized]; try reflexivity.
-    rewrite MN. destruct (g_norm call' mvtab (VMv x)); cbn [bind]; [apply MI | reflexivity].
-  - rewrite (mapM_ext _ _ args (IH env)).
-    destruct (mapM (directG OT A call' reg' mvtab fu env) args); cbn [bind]; [|reflexivity]. rewrite Hrg. reflexivity.
+  intros xs X _. exists (fun kv => negb (rzero (snd kv))). split; [reflexivity|].
+  intros kv _ H. apply negb_false_iff in H. exact H.
+Qed.
+Lemma drops_nothing A : drops_zero_tests A (fun _ X => X).
+Proof. intros xs X _. exists (fun _ => true). split; [symmetry; apply filter_true | intros; discriminate]. Qed.
+(* the filter applied under any condition on the operands ... *)
+Lemma drops_when A (c : list (mv rpoly) -> bool) : drops_zero_tests A (fun xs X => if c xs then filter_nz rzero X else X).
+Proof. intros xs X HX. destruct (c xs); [apply (drops_filter_nz A xs X HX) | apply (drops_nothing A xs X HX)]. Qed.
+(* ... e.g. `if issymbolic and self.algebra.simp_func`: an operand is symbolic when it stores a symbolic coefficient *)
+Definition filter_if_symbolic (xs : list (mv rpoly)) (X : mv rpoly) : mv rpoly :=
+  if existsb (fun x : mv rpoly => match x with [] => false | _ => true end) xs then filter_nz rzero X else X.
+Lemma drops_if_symbolic A : drops_zero_tests A filter_if_symbolic.
+Proof.
+  intros xs X HX. unfold filter_if_symbolic. destruct (existsb _ xs); [apply (drops_filter_nz A xs X HX) | apply (drops_nothing A xs X HX)].
 Qed.
 
-(* sanity: with the filter that keeps everything the symbolic run is [direct] over the symbol structure *)
-Theorem symbolic_run_nofilter {T} (OT : ops T) A opd mvtab tapetab bodies fuel env e :
-  symbolic_run OT A (fun _ r => r) opd mvtab tapetab bodies fuel env e
-  = direct OT A opd mvtab tapetab bodies fuel env e.
+Definition val_is_num {T} (v : @val T) : bool := match v with VNum _ => true | VMv _ => false end.
+
+Section RPoly.
+  Variable R : Type.
+  Variables (rO rI : R) (radd rmul rsub : R -> R -> R) (ropp : R -> R).
+  Hypothesis Rth : ring_theory rO rI radd rmul rsub ropp (@eq R).
+  Local Notation O := (mkOps R radd rsub rmul ropp rO rI).
+  Local Notation "x == y" := (Sparse.equiv rO rI radd rmul rsub ropp x y) (at level 70, no associativity).
+  Variable rho : nat -> R.                      (* the values substituted for the variables *)
+  Local Notation ev := (Poly.N R rO rI radd rmul ropp rho).
+  Local Notation zi := (Poly.zinj R rO rI radd rmul ropp).
+  Variable A : alg.
+  Hypothesis Hwf : wf_alg A = true.
+
+  Lemma drops_sound F : drops_zero_tests A F ->
+    filter_sound rpoly rpolyQ R rO ev A F.
+  Proof.
+    intros HF xs X HQ HX. destruct (HF xs X HX) as [p [Ep Hp]]. exists p. split; [exact Ep|].
+    intros kv Hin Hpk. apply (rzero_sound R rO rI radd rmul rsub ropp Rth rho); [|apply (Hp kv Hin Hpk)].
+    unfold all_coeffs in HQ. rewrite Forall_forall in HQ. apply HQ. exact Hin.
+  Qed.
+
+  Lemma simm_self (x : mv rpoly) : all_coeffs rpolyQ x -> wfm rpoly A x ->
+    simm rpoly rpolyQ R rO rI radd rmul rsub ropp ev A x (map_mv ev x).
+  Proof.
+    intros HQ [Hn Hi]. split; [|split; [exact Hi | rewrite keys_map_mv; exact Hi]].
+    split; [exact HQ|]. split; [exact Hn|]. split; [rewrite keys_map_mv; exact Hn|]. intros K. reflexivity.
+  Qed.
+
+  (* what the simulation relation says about the two results *)
+  Lemma simv_agrees (v : @val rpoly) (w : @val R) :
+    simv rpoly rpolyQ R rO rI radd rmul rsub ropp ev A v w ->
+    val_is_num v = val_is_num w /\ all_coeffs rpolyQ (as_mv v) /\ wfm rpoly A (as_mv v)
+    /\ map_mv ev (as_mv v) == as_mv w.
+  Proof.
+    intros H. split; [destruct v, w; cbn in H |- *; tauto|].
+    pose proof (simv_as_mv rpoly rpolyQ R rO rI radd rmul rsub ropp ev A Hwf v w H) as Hm.
+    destruct Hm as [[HQ [Hn [_ He]]] [Hi _]]. split; [exact HQ|]. split; [split; assumption | exact He].
+  Qed.
+
+  (* bodies whose number literals are any polynomials of the symbol class *)
+  Theorem symbolic_agree_literals F mvtab tapetab (bodies : list (expr rpoly)) :
+    drops_zero_tests A F -> Forall (lits rpolyQ) bodies ->
+    forall fuel (body : expr rpoly) (xs : list (mv rpoly)) (w : @val R),
+      lits rpolyQ body -> Forall (all_coeffs rpolyQ) xs -> Forall (wfm rpoly A) xs ->
+      direct O A (std_opd O A no_ext) mvtab tapetab (map (emap ev) bodies) fuel (map (map_mv ev) xs) (emap ev body) = Ok w ->
+      exists v, symbolic_run Rops A F (std_opd Rops A no_ext) mvtab tapetab bodies fuel xs body = Ok v
+                /\ val_is_num v = val_is_num w /\ all_coeffs rpolyQ (as_mv v) /\ wfm rpoly A (as_mv v)
+                /\ map_mv ev (as_mv v) == as_mv w.
+  Proof.
+    intros HF Hb fuel body xs w Hl HQ HW H.
+    assert (Henv : Forall2 (simm rpoly rpolyQ R rO rI radd rmul rsub ropp ev A) xs (map (map_mv ev) xs)).
+    { clear H. induction xs as [|x xs IH]; cbn [map]; [constructor|]. inversion HQ; inversion HW; subst.
+      constructor; [apply simm_self; assumption | apply IH; assumption]. }
+    destruct (symbolic_sim rpoly (R_of_Z 0) (R_of_Z 1) Model.Poly.radd Model.Poly.rmul Model.Poly.rsub rneg rpolyQ Rops_closed
+                R rO rI radd rmul rsub ropp Rth ev (evN_hom_on R rO rI radd rmul rsub ropp Rth rho) A Hwf
+                F mvtab tapetab bodies (drops_sound F HF) Hb fuel body xs (map (map_mv ev) xs) w Hl Henv H) as [v [Ev Sv]].
+    exists v. split; [exact Ev | apply simv_agrees; exact Sv].
+  Qed.
+
+  (* bodies with integer literals: RationalPolynomial arithmetic with an int is arithmetic with the constant
+     polynomial; on the numeric side the literal is the integer in the ring *)
+  Theorem symbolic_agree F mvtab tapetab (bodies : list (expr Z)) :
+    drops_zero_tests A F ->
+    forall fuel (body : expr Z) (xs : list (mv rpoly)) (w : @val R),
+      Forall (all_coeffs rpolyQ) xs -> Forall (wfm rpoly A) xs ->
+      direct O A (std_opd O A no_ext) mvtab tapetab (map (emap zi) bodies) fuel (map (map_mv ev) xs) (emap zi body) = Ok w ->
+      exists v, symbolic_run Rops A F (std_opd Rops A no_ext) mvtab tapetab (map (emap R_of_Z) bodies) fuel xs (emap R_of_Z body) = Ok v
+                /\ val_is_num v = val_is_num w /\ all_coeffs rpolyQ (as_mv v) /\ wfm rpoly A (as_mv v)
+                /\ map_mv ev (as_mv v) == as_mv w.
+  Proof.
+    intros HF fuel body xs w HQ HW H.
+    assert (Ee : forall e : expr Z, emap ev (emap R_of_Z e) = emap zi e).
+    { intros e. rewrite emap_emap. apply emap_ext. intros c. apply (N_R_of_Z R rO rI radd rmul rsub ropp Rth rho c). }
+    apply (symbolic_agree_literals F mvtab tapetab (map (emap R_of_Z) bodies) HF); try assumption.
+    - apply Forall_map. apply Forall_forall. intros e _. apply lits_emap. exact rpolyQ_R_of_Z.
+    - apply lits_emap. exact rpolyQ_R_of_Z.
+    - rewrite Ee, map_map. rewrite (map_ext _ _ Ee). exact H.
+  Qed.
+End RPoly.
+
+(* ================= 4. the call alg.register(symbolic=True)(f)( *xs) ================= *)
+(* OperatorDict.__getitem__: one fresh variable per stored key of each argument (here numbered consecutively; the
+   theorems above hold for every numbering); the call substitutes the stored values *)
+Fixpoint sym_args (n : nat) (kss : list (list Z)) : list (mv rpoly) :=
+  match kss with
+  | [] => []
+  | ks :: r => combine ks (map R_of_var (seq n (length ks))) :: sym_args (n + length ks) r
+  end.
+Definition valuation {R} (d : R) (xs : list (mv R)) (n : nat) : R := nth n (concat (map vals xs)) d.
+
+Lemma map_nth_seq {X} (d : X) (l : list X) : forall pre rest,
+  map (fun i => nth i (pre ++ l ++ rest) d) (seq (length pre) (length l)) = l.
 Proof.
-  rewrite directG_direct. unfold symbolic_run. apply directG_ext; [|reflexivity].
-  intros op xs. destruct (call_op opd op xs); reflexivity.
+  induction l as [|a l IH]; intros pre rest; [reflexivity|]. cbn [length seq map]. f_equal.
+  - rewrite app_nth2 by lia. rewrite Nat.sub_diag. reflexivity.
+  - replace (pre ++ (a :: l) ++ rest)%list with ((pre ++ [a]) ++ l ++ rest)%list by (rewrite <- app_assoc; reflexivity).
+    replace (S (length pre)) with (length (pre ++ [a])%list) by (rewrite app_length; cbn; lia). apply IH.
+Qed.
+Lemma map_mv_combine {X Y} (g : X -> Y) ks (l : list X) : map_mv g (combine ks l) = combine ks (map g l).
+Proof. revert l. induction ks as [|k ks IH]; intros [|a l]; cbn; try reflexivity. unfold map_mv in IH. rewrite IH. reflexivity. Qed.
+
+Section Call.
+  Variable R : Type.
+  Variables (rO rI : R) (radd rmul rsub : R -> R -> R) (ropp : R -> R).
+  Hypothesis Rth : ring_theory rO rI radd rmul rsub ropp (@eq R).
+  Local Notation O := (mkOps R radd rsub rmul ropp rO rI).
+  Local Notation "x == y" := (Sparse.equiv rO rI radd rmul rsub ropp x y) (at level 70, no associativity).
+  Local Notation zi := (Poly.zinj R rO rI radd rmul ropp).
+  Variable A : alg.
+  Hypothesis Hwf : wf_alg A = true.
+
+  Lemma sym_args_eval (xs : list (mv R)) : forall pre,
+    map (map_mv (Poly.N R rO rI radd rmul ropp (fun n => nth n (pre ++ concat (map vals xs)) rO)))
+        (sym_args (length pre) (map keys xs)) = xs.
+  Proof.
+    induction xs as [|x xs IH]; intros pre; [reflexivity|]. cbn [map sym_args concat]. f_equal.
+    - rewrite map_mv_combine, map_map.
+      rewrite (map_ext _ (fun i => nth i (pre ++ vals x ++ concat (map vals xs)) rO))
+        by (intros i; apply (N_R_of_var R rO rI radd rmul rsub ropp Rth)).
+      rewrite length_keys, <- (length_vals x), map_nth_seq. apply combine_keys_vals.
+    - specialize (IH (pre ++ vals x)%list). rewrite app_length, length_vals, <- app_assoc in IH.
+      rewrite length_keys. exact IH.
+  Qed.
+  Lemma sym_args_ok (kss : list (list Z)) : forall n, Forall (wfk A) kss ->
+    Forall (all_coeffs rpolyQ) (sym_args n kss) /\ Forall (wfm rpoly A) (sym_args n kss).
+  Proof.
+    induction kss as [|ks kss IH]; intros n Hk; cbn [sym_args]; [split; constructor|].
+    inversion Hk as [|? ? Hk1 Hk2]; subst. destruct (IH (n + length ks)%nat Hk2) as [I1 I2].
+    split; constructor; try assumption.
+    - unfold all_coeffs. apply Forall_forall. intros [k v] Hin. apply in_combine_r in Hin. apply in_map_iff in Hin.
+      destruct Hin as [i [E _]]. cbn [snd]. rewrite <- E. apply rpolyQ_R_of_var.
+    - unfold wfm. rewrite keys_combine by (rewrite map_length, seq_length; reflexivity). exact Hk1.
+  Qed.
+
+  (* alg.register(symbolic=True)(f)( *xs) versus f( *xs): every well-formed algebra, every commutative ring, every
+     body (integer literals; any depth of calls of other registered functions), any arguments with pairwise
+     distinct stored keys, any filter that only drops coefficients testing zero.  The numeric side runs in the
+     table of the polynomial operators (no_ext: inv, div, sqrt and everything built on them raise there), so
+     the hypothesis "f( *xs) returns" restricts the bodies to the division-free fragment.
+     Conclusion: the symbolic run returns a value of the same kind, and its coefficient expressions - as stored,
+     and in the canonical order do_codegen compiles them in - evaluate at the values of xs to the coefficients
+     of f( *xs) on every blade. *)
+  Theorem symbolic_call_agrees F mvtab tapetab (bodies : list (expr Z)) :
+    drops_zero_tests A F ->
+    forall fuel (body : expr Z) (xs : list (mv R)) (w : @val R),
+      Forall (wfm R A) xs ->
+      direct O A (std_opd O A no_ext) mvtab tapetab (map (emap zi) bodies) fuel xs (emap zi body) = Ok w ->
+      exists v, symbolic_run Rops A F (std_opd Rops A no_ext) mvtab tapetab (map (emap R_of_Z) bodies) fuel
+                             (sym_args 0 (map keys xs)) (emap R_of_Z body) = Ok v
+                /\ val_is_num v = val_is_num w
+                /\ map_mv (Poly.N R rO rI radd rmul ropp (valuation rO xs)) (as_mv v) == as_mv w
+                /\ map_mv (Poly.N R rO rI radd rmul ropp (valuation rO xs)) (canon_sort A (as_mv v)) == as_mv w.
+  Proof.
+    intros HF fuel body xs w HW H.
+    pose proof (sym_args_eval xs []) as Eargs. cbn [length app] in Eargs. fold (valuation rO xs) in Eargs.
+    destruct (sym_args_ok (map keys xs) 0) as [HQ HWs].
+    { apply Forall_forall. intros ks Hin. apply in_map_iff in Hin. destruct Hin as [x [E Hx]]. subst ks.
+      rewrite Forall_forall in HW. exact (HW x Hx). }
+    rewrite <- Eargs in H.
+    destruct (symbolic_agree R rO rI radd rmul rsub ropp Rth (valuation rO xs) A Hwf F mvtab tapetab bodies HF fuel body
+                (sym_args 0 (map keys xs)) w HQ HWs H) as [v [Ev [Hk [HvQ [HvW He]]]]].
+    exists v. split; [exact Ev|]. split; [exact Hk|]. split; [exact He|].
+    rewrite nat_canon_sort. intros K. rewrite <- (He K).
+    apply (canon_sort_equiv R rO rI radd rmul rsub ropp A). rewrite keys_map_mv. apply HvW.
+  Qed.
+End Call.
+
+(* ================= 5. a closed instance (non-vacuity) ================= *)
+(* Algebra(2), integers, the bodies of Theory/Tape.v:  g0(a, b) = a*b + 2,
+   f(a, b) = a.e21 * (7 - b.grade(1)) + g0(a, ~b) ** 2  (coefficient access, a number on the left, grade selection,
+   a nested registered call, ~ and a power), the filter applied when an operand is symbolic *)
+Example symbolic_example :
+  exists v w,
+    direct Zops exA (std_opd Zops exA no_ext) mv_methods tape_methods
+           (map (emap (Poly.zinj Z 0 1 Z.add Z.mul Z.opp)) exbodies) 40 exargs
+           (emap (Poly.zinj Z 0 1 Z.add Z.mul Z.opp) (nth 1 exbodies (ENum 0))) = Ok w /\
+    symbolic_run Rops exA filter_if_symbolic (std_opd Rops exA no_ext) mv_methods tape_methods
+                 (map (emap R_of_Z) exbodies) 40 (sym_args 0 (map keys exargs)) (emap R_of_Z (nth 1 exbodies (ENum 0))) = Ok v /\
+    Sparse.equiv 0 1 Z.add Z.mul Z.sub Z.opp
+      (map_mv (Poly.N Z 0 1 Z.add Z.mul Z.opp (valuation 0 exargs)) (as_mv v)) (as_mv w) /\
+    as_mv w = [(0, 28); (1, 76); (2, 116); (3, 128)].
+Proof.
+  assert (Hwf : wf_alg exA = true) by (vm_compute; reflexivity).
+  destruct (direct Zops exA (std_opd Zops exA no_ext) mv_methods tape_methods
+              (map (emap (Poly.zinj Z 0 1 Z.add Z.mul Z.opp)) exbodies) 40 exargs
+              (emap (Poly.zinj Z 0 1 Z.add Z.mul Z.opp) (nth 1 exbodies (ENum 0)))) as [w|e] eqn:Hp;
+    [|vm_compute in Hp; discriminate].
+  destruct (symbolic_call_agrees Z 0 1 Z.add Z.mul Z.sub Z.opp InitialRing.Zth exA Hwf filter_if_symbolic
+              mv_methods tape_methods exbodies (drops_if_symbolic exA) 40 (nth 1 exbodies (ENum 0)) exargs w)
+    as [v [Hv [_ [He _]]]].
+  - apply Forall_wfm_b. vm_compute. reflexivity.
+  - exact Hp.
+  - exists v, w. split; [reflexivity|]. split; [exact Hv|]. split; [exact He|].
+    vm_compute in Hp. inversion Hp. reflexivity.
+Qed.
+
+(* ================= 6. the table without inv / div / sqrt is a restriction of every table ================= *)
+(* a run that returns in the table of the polynomial operators alone (no_ext: every other operator raises) returns
+   the same value in the table extended by ANY ext: the hypothesis "f( *xs) returns under no_ext" of the theorems above
+   selects the runs that never call inv / div / sqrt, it does not change what f computes *)
+Definition opd_le {T} (opd opd' : optable T) : Prop := forall op kin kf, opd op kin = Ok kf -> opd' op kin = Ok kf.
+Lemma std_noext_le {T} (OT : ops T) A ext : opd_le (std_opd OT A no_ext) (std_opd OT A ext).
+Proof.
+  intros op kin kf. unfold std_opd, no_ext. destruct kin as [|kx [|ky [|kz r]]]; try discriminate.
+  - destruct (String.eqb op "polarity"); [auto|]. destruct (sassoc op poly1_table); [auto | discriminate].
+  - destruct (sassoc op poly2_table); [auto | discriminate].
+Qed.
+
+Section TapeInd.
+  Context {T : Type} (P : tape T -> Prop).
+  Hypothesis HArg : forall i, P (TArg i).
+  Hypothesis HZero : P TZero.
+  Hypothesis HOne : P TOne.
+  Hypothesis HNum : forall c, P (TNum c).
+  Hypothesis HIdx : forall neg t idx, P t -> P (TIdx neg t idx).
+  Hypothesis HSel : forall t idxs, P t -> P (TSel t idxs).
+  Hypothesis HOp : forall op kin ts, Forall P ts -> P (TOp op kin ts).
+  Hypothesis HCall : forall k kin body ts, P body -> Forall P ts -> P (TCall k kin body ts).
+  Fixpoint tape_nested_ind (t : tape T) : P t :=
+    let fix go (l : list (tape T)) : Forall P l :=
+      match l with [] => Forall_nil P | a :: r => Forall_cons a (tape_nested_ind a) (go r) end in
+    match t with
+    | TArg i => HArg i
+    | TZero => HZero
+    | TOne => HOne
+    | TNum c => HNum c
+    | TIdx neg t0 idx => HIdx neg t0 idx (tape_nested_ind t0)
+    | TSel t0 idxs => HSel t0 idxs (tape_nested_ind t0)
+    | TOp op kin ts => HOp op kin ts (go ts)
+    | TCall k kin body ts => HCall k kin body ts (tape_nested_ind body) (go ts)
+    end.
+End TapeInd.
+
+Section Mono.
+  Context {T : Type} (OT : ops T).
+  Variable A : alg.
+  Variables opd opd' : optable T.
+  Hypothesis Hle : opd_le opd opd'.
+
+  Lemma call_le op xs m : call_op opd op xs = Ok m -> call_op opd' op xs = Ok m.
+  Proof. unfold call_op. intros H. inv_bindn H as kf Hkf. rewrite (Hle _ _ _ Hkf). exact H. Qed.
+
+  Lemma run_TOp_gen (o : optable T) env op kin ts :
+    run_tape OT o env (TOp op kin ts) = ('(_, f) <- o op kin ;; args <- mapM (run_tape OT o env) ts ;; f args).
+  Proof.
+    cbn. destruct (o op kin) as [[ko f]|e]; cbn [bind]; [|reflexivity].
+    match goal with |- bind (?F ts) _ = _ =>
+      assert (E : F ts = mapM (run_tape OT o env) ts)
+        by (induction ts as [|t0 ts IH]; [reflexivity | cbn; rewrite IH; reflexivity]) end.
+    rewrite E. reflexivity.
+  Qed.
+  Lemma run_TCall_gen (o : optable T) env k kin tb ts :
+    run_tape OT o env (TCall k kin tb ts) = (args <- mapM (run_tape OT o env) ts ;; run_tape OT o args tb).
+  Proof.
+    cbn.
+    match goal with |- bind (?F ts) _ = _ =>
+      assert (E : F ts = mapM (run_tape OT o env) ts)
+        by (induction ts as [|t0 ts IH]; [reflexivity | cbn; rewrite IH; reflexivity]) end.
+    rewrite E. reflexivity.
+  Qed.
+  Lemma mapM_le {X Y} (f g : X -> res Y) l r : Forall (fun x => forall y, f x = Ok y -> g x = Ok y) l ->
+    mapM f l = Ok r -> mapM g l = Ok r.
+  Proof.
+    intros HF. revert r. induction HF as [|x l Hx HF IH]; intros r H; cbn [mapM] in *; [exact H|].
+    inv_bindn H as y Hy. inv_bindn H as ys Hys. rewrite (Hx y Hy), (IH ys Hys). exact H.
+  Qed.
+  Lemma run_le t : forall env vs, run_tape OT opd env t = Ok vs -> run_tape OT opd' env t = Ok vs.
+  Proof.
+    induction t using tape_nested_ind; intros env vs Hr; try exact Hr.
+    - cbn [run_tape] in *. inv_bindn Hr as a Ha. rewrite (IHt env a Ha). exact Hr.
+    - cbn [run_tape] in *. inv_bindn Hr as a Ha. rewrite (IHt env a Ha). exact Hr.
+    - rewrite run_TOp_gen in *. inv_bindn Hr as kf Hkf. rewrite (Hle _ _ _ Hkf). cbn [bind]. destruct kf as [ko f].
+      inv_bindn Hr as args Hargs. rewrite (mapM_le (run_tape OT opd env) (run_tape OT opd' env) ts args); [exact Hr | | exact Hargs].
+      eapply Forall_impl; [|exact H]. intros t0 Ht0 y. apply Ht0.
+    - rewrite run_TCall_gen in *. inv_bindn Hr as args Hargs.
+      rewrite (mapM_le (run_tape OT opd env) (run_tape OT opd' env) ts args); [cbn [bind]; apply IHt; exact Hr | | exact Hargs].
+      eapply Forall_impl; [|exact H]. intros t0 Ht0 y. apply Ht0.
+  Qed.
+
+  Variable tapetab : mtable.
+  Local Notation rv := (@rval T).
+  Definition le1 (F F' : rv -> res rv) : Prop := forall r q, F r = Ok q -> F' r = Ok q.
+  Definition le2 (F F' : rv -> rv -> res rv) : Prop := forall r1 r2 q, F r1 r2 = Ok q -> F' r1 r2 = Ok q.
+  Lemma le_unary op ks t q : rec_unary opd op ks t = Ok q -> rec_unary opd' op ks t = Ok q.
+  Proof. unfold rec_unary. intros H. inv_bindn H as kf Hkf. rewrite (Hle _ _ _ Hkf). exact H. Qed.
+  Lemma le_binary op ks t r2 q : rec_binary opd op ks t r2 = Ok q -> rec_binary opd' op ks t r2 = Ok q.
+  Proof. destruct r2; cbn [rec_binary]; intros H; inv_bindn H as kf Hkf; rewrite (Hle _ _ _ Hkf); exact H. Qed.
+  Lemma le_meth1 m : le1 (rec_meth1 opd tapetab m) (rec_meth1 opd' tapetab m).
+  Proof.
+    intros [c|ks t] q H; cbn [rec_meth1] in *; [exact H|].
+    destruct (mlookup m tapetab) as [[[op sw] [|[|ar]]]|]; try exact H. apply le_unary. exact H.
+  Qed.
+  Lemma le_meth2tab m : le2 (rec_meth2tab opd tapetab m) (rec_meth2tab opd' tapetab m).
+  Proof.
+    intros [c|ks t] r2 q H; cbn [rec_meth2tab] in *; [exact H|].
+    destruct (mlookup m tapetab) as [[[op sw] [|[|[|ar]]]]|]; try exact H. apply le_binary. exact H.
+  Qed.
+  Lemma le_special m : le2 (rec_special opd tapetab m) (rec_special opd' tapetab m).
+  Proof.
+    intros r1 r2 q H. unfold rec_special in *. destruct (String.eqb m "__rsub__").
+    - inv_bindn H as n Hn. rewrite (le_meth1 _ _ _ Hn). cbn [bind]. destruct r2; apply le_meth2tab; exact H.
+    - destruct (String.eqb m "__rmul__"); [destruct r2; apply le_meth2tab; exact H|].
+      destruct (String.eqb m "__rxor__"); [destruct r2; apply le_meth2tab; exact H | exact H].
+  Qed.
+  Lemma le_meth2 m : le2 (rec_meth2 opd tapetab m) (rec_meth2 opd' tapetab m).
+  Proof.
+    intros [c|ks t] r2 q H; cbn [rec_meth2] in *; [exact H|].
+    destruct (mlookup m tapetab); [apply le_meth2tab | apply le_special]; exact H.
+  Qed.
+  Lemma le_prefix u : le1 (rec_prefix OT opd tapetab u) (rec_prefix OT opd' tapetab u).
+  Proof. intros [c|ks t] q H; cbn [rec_prefix] in *; [exact H | apply le_meth1; exact H]. Qed.
+  Lemma le_infix o : le2 (rec_infix OT opd tapetab o) (rec_infix OT opd' tapetab o).
+  Proof. intros [a|k1 t1] [b|k2 t2] q H; cbn [rec_infix] in *; try exact H; apply le_meth2; exact H. Qed.
+  Lemma le_pow_loop n x : forall acc q, pow_loop n (fun a => rec_meth2 opd tapetab "gp" a x) acc = Ok q ->
+    pow_loop n (fun a => rec_meth2 opd' tapetab "gp" a x) acc = Ok q.
+  Proof.
+    induction n as [|n IH]; intros acc q H; cbn [pow_loop] in *; [exact H|].
+    inv_bindn H as y Hy. rewrite (le_meth2 _ _ _ _ Hy). cbn [bind]. apply IH. exact H.
+  Qed.
+  Lemma le_pow n : le1 (fun r => rec_pow opd tapetab r n) (fun r => rec_pow opd' tapetab r n).
+  Proof.
+    intros [c|ks t] q H; cbn [rec_pow] in *; [exact H|]. destruct (n =? 0); [exact H|].
+    inv_bindn H as x Hx. destruct (n <? 0).
+    - rewrite (le_meth1 _ _ _ Hx). cbn [bind]. apply le_pow_loop. exact H.
+    - rewrite Hx. cbn [bind]. apply le_pow_loop. exact H.
+  Qed.
+  Lemma le_dual un k : le1 (fun r => rec_dual A opd tapetab un r k) (fun r => rec_dual A opd' tapetab un r k).
+  Proof.
+    intros [c|ks t] q H; cbn [rec_dual] in *; [exact H|]. inv_bindn H as m Hm. rewrite Hm. cbn [bind]. apply le_meth1. exact H.
+  Qed.
+  Lemma le_norm : le1 (rec_norm opd tapetab) (rec_norm opd' tapetab).
+  Proof. intros r q H. unfold rec_norm in *. inv_bindn H as n Hn. rewrite (le_meth1 _ _ _ Hn). cbn [bind]. apply le_meth1. exact H. Qed.
+  Lemma le_normalized : le1 (rec_normalized OT opd tapetab) (rec_normalized OT opd' tapetab).
+  Proof.
+    intros [c|ks t] q H; cbn [rec_normalized] in *; [exact H|]. inv_bindn H as n Hn. rewrite (le_norm _ _ Hn). cbn [bind].
+    apply le_infix. exact H.
+  Qed.
+
+  Variable bodies : list (expr T).
+  Lemma record_le : forall fuel kenv e r, record OT A opd tapetab bodies fuel kenv e = Ok r ->
+    record OT A opd' tapetab bodies fuel kenv e = Ok r.
+  Proof.
+    induction fuel as [|fu IH]; intros kenv e r H; [discriminate|].
+    assert (U1 : forall (F F' : rv -> res rv) e1, le1 F F' ->
+              (x <- record OT A opd tapetab bodies fu kenv e1 ;; F x) = Ok r ->
+              (x <- record OT A opd' tapetab bodies fu kenv e1 ;; F' x) = Ok r).
+    { intros F F' e1 HF H1. inv_bindn H1 as x Hx. rewrite (IH _ _ _ Hx). cbn [bind]. apply HF. exact H1. }
+    assert (U2 : forall (F F' : rv -> rv -> res rv) e1 e2, le2 F F' ->
+              (x <- record OT A opd tapetab bodies fu kenv e1 ;; y <- record OT A opd tapetab bodies fu kenv e2 ;; F x y) = Ok r ->
+              (x <- record OT A opd' tapetab bodies fu kenv e1 ;; y <- record OT A opd' tapetab bodies fu kenv e2 ;; F' x y) = Ok r).
+    { intros F F' e1 e2 HF H1. inv_bindn H1 as x Hx. inv_bindn H1 as y Hy. rewrite (IH _ _ _ Hx), (IH _ _ _ Hy). cbn [bind].
+      apply HF. exact H1. }
+    destruct e; cbn [record] in H |- *; try exact H.
+    - exact (U1 _ _ e (le_meth1 m) H).
+    - exact (U2 _ _ e1 e2 (le_meth2 m) H).
+    - exact (U1 _ _ e (le_prefix u) H).
+    - exact (U2 _ _ e1 e2 (le_infix o) H).
+    - exact (U1 _ _ e (le_pow n) H).
+    - exact (U1 (fun r0 => rec_grade A r0 gs) (fun r0 => rec_grade A r0 gs) e (fun _ _ H0 => H0) H).
+    - exact (U1 (fun r0 => rec_getattr A r0 nm) (fun r0 => rec_getattr A r0 nm) e (fun _ _ H0 => H0) H).
+    - exact (U1 _ _ e (le_dual false k) H).
+    - exact (U1 _ _ e (le_dual true k) H).
+    - exact (U1 _ _ e le_norm H).
+    - exact (U1 _ _ e le_normalized H).
+    - inv_bindn H as rs Hrs.
+      rewrite (mapM_le (record OT A opd tapetab bodies fu kenv) (record OT A opd' tapetab bodies fu kenv) args rs); [| |exact Hrs].
+      + cbn [bind]. destruct (negb (existsb is_rec rs)); [exact H|].
+        inv_bindn H as body Hbody. rewrite Hbody. cbn [bind]. inv_bindn H as rb Hrb. rewrite (IH _ _ _ Hrb). exact H.
+      + apply Forall_forall. intros a _ y. apply IH.
+  Qed.
+  Lemma registered_le fuel k xs m : registered OT A opd tapetab bodies fuel k xs = Ok m ->
+    registered OT A opd' tapetab bodies fuel k xs = Ok m.
+  Proof.
+    unfold registered, compile. intros H. inv_bindn H as kt Hkt. inv_bindn Hkt as body Hbody. inv_bindn Hkt as rb Hrb.
+    rewrite Hbody. cbn [bind]. rewrite (record_le _ _ _ _ Hrb). cbn [bind]. rewrite Hkt. cbn [bind]. destruct kt as [ko tb].
+    inv_bindn H as vs Hvs. rewrite (run_le _ _ _ Hvs). exact H.
+  Qed.
+End Mono.
+
+(* [directG] is monotone in its two parameters *)
+Lemma directG_le {T} (OT : ops T) A call call' reg reg' mvtab :
+  (forall op xs m, call op xs = Ok m -> call' op xs = Ok m) ->
+  (forall fu k xs m, reg fu k xs = Ok m -> reg' fu k xs = Ok m) ->
+  forall fuel env e w, directG OT A call reg mvtab fuel env e = Ok w -> directG OT A call' reg' mvtab fuel env e = Ok w.
+Proof.
+  intros Hcl Hrg.
+  assert (M1 : forall m v w, g_meth1 call mvtab m v = Ok w -> g_meth1 call' mvtab m v = Ok w).
+  { intros m [c|x] w H; cbn [g_meth1] in *; [exact H|]. destruct (mlookup m mvtab) as [[[op sw] [|[|ar]]]|]; try exact H.
+    inv_bindn H as r Hr. rewrite (Hcl _ _ _ Hr). exact H. }
+  assert (M2 : forall m v1 v2 w, g_meth2 call mvtab m v1 v2 = Ok w -> g_meth2 call' mvtab m v1 v2 = Ok w).
+  { intros m [c|x] v2 w H; cbn [g_meth2] in *; [exact H|]. destruct (mlookup m mvtab) as [[[op sw] [|[|[|ar]]]]|]; try exact H.
+    inv_bindn H as r Hr. destruct sw; rewrite (Hcl _ _ _ Hr); exact H. }
+  assert (MI : forall o v1 v2 w, g_infix OT call mvtab o v1 v2 = Ok w -> g_infix OT call' mvtab o v1 v2 = Ok w).
+  { intros o [a|x] [b|y] w H; cbn [g_infix] in *; try exact H; apply M2; exact H. }
+  assert (MN : forall v w, g_norm call mvtab v = Ok w -> g_norm call' mvtab v = Ok w).
+  { intros v w H. unfold g_norm in *. inv_bindn H as n Hn. rewrite (M1 _ _ _ Hn). cbn [bind]. apply M1. exact H. }
+  assert (ML : forall n x acc w, pow_loop n (fun r => g_meth2 call mvtab "gp" r x) acc = Ok w ->
+                 pow_loop n (fun r => g_meth2 call' mvtab "gp" r x) acc = Ok w).
+  { induction n as [|n IHn]; intros x acc w H; cbn [pow_loop] in *; [exact H|].
+    inv_bindn H as y Hy. rewrite (M2 _ _ _ _ Hy). cbn [bind]. apply IHn. exact H. }
+  induction fuel as [|fu IH]; intros env e w H; [discriminate|].
+  destruct e; cbn [directG] in H |- *; try exact H.
+  - inv_bindn H as v Hv. rewrite (IH _ _ _ Hv). cbn [bind]. apply M1. exact H.
+  - inv_bindn H as v1 Hv1. inv_bindn H as v2 Hv2. rewrite (IH _ _ _ Hv1), (IH _ _ _ Hv2). cbn [bind]. apply M2. exact H.
+  - inv_bindn H as v Hv. rewrite (IH _ _ _ Hv). cbn [bind]. destruct v as [c|x]; cbn [g_prefix] in *; [exact H | apply M1; exact H].
+  - inv_bindn H as v1 Hv1. inv_bindn H as v2 Hv2. rewrite (IH _ _ _ Hv1), (IH _ _ _ Hv2). cbn [bind]. apply MI. exact H.
+  - inv_bindn H as v Hv. rewrite (IH _ _ _ Hv). cbn [bind]. destruct v as [c|x]; cbn [g_pow] in *; [exact H|].
+    destruct (n =? 0); [exact H|]. inv_bindn H as b Hb. destruct (n <? 0).
+    + rewrite (M1 _ _ _ Hb). cbn [bind]. apply ML. exact H.
+    + rewrite Hb. cbn [bind]. apply ML. exact H.
+  - inv_bindn H as v Hv. rewrite (IH _ _ _ Hv). cbn [bind]. exact H.
+  - inv_bindn H as v Hv. rewrite (IH _ _ _ Hv). cbn [bind]. exact H.
+  - inv_bindn H as v Hv. rewrite (IH _ _ _ Hv). cbn [bind]. destruct v as [c|x]; cbn [g_dual] in *; [exact H|].
+    inv_bindn H as m Hm. rewrite Hm. cbn [bind]. apply M1. exact H.
+  - inv_bindn H as v Hv. rewrite (IH _ _ _ Hv). cbn [bind]. destruct v as [c|x]; cbn [g_dual] in *; [exact H|].
+    inv_bindn H as m Hm. rewrite Hm. cbn [bind]. apply M1. exact H.
+  - inv_bindn H as v Hv. rewrite (IH _ _ _ Hv). cbn [bind]. apply MN. exact H.
+  - inv_bindn H as v Hv. rewrite (IH _ _ _ Hv). cbn [bind]. destruct v as [c|x]; cbn [g_normalized] in *; [exact H|].
+    inv_bindn H as n Hn. rewrite (MN _ _ Hn). cbn [bind]. apply MI. exact H.
+  - inv_bindn H as vs Hvs. rewrite (mapM_le (directG OT A call reg mvtab fu env) (directG OT A call' reg' mvtab fu env) args vs); [| |exact Hvs].
+    + cbn [bind]. inv_bindn H as m Hm. rewrite (Hrg _ _ _ _ Hm). exact H.
+    + apply Forall_forall. intros a _ y. apply IH.
+Qed.
+
+Theorem direct_noext_le {T} (OT : ops T) A ext mvtab tapetab bodies fuel env e w :
+  direct OT A (std_opd OT A no_ext) mvtab tapetab bodies fuel env e = Ok w ->
+  direct OT A (std_opd OT A ext) mvtab tapetab bodies fuel env e = Ok w.
+Proof.
+  rewrite !directG_direct. apply directG_le.
+  - intros op xs m. apply call_le. apply std_noext_le.
+  - intros fu k xs m. apply registered_le. apply std_noext_le.
 Qed.
